@@ -1,315 +1,324 @@
-./Extract/C01x.vo ./Extract/C01x.glob ./Extract/C01x.v.beautified ./Extract/C01x.required_vo: ./Extract/C01x.v ./Model/StCore.vo ./Model/StTyping.vo ./Model/StRef.vo ./Model/StCalls.vo
-./Extract/C01x.vio: ./Extract/C01x.v ./Model/StCore.vio ./Model/StTyping.vio ./Model/StRef.vio ./Model/StCalls.vio
-./Extract/C01x.vos ./Extract/C01x.vok ./Extract/C01x.required_vos: ./Extract/C01x.v ./Model/StCore.vos ./Model/StTyping.vos ./Model/StRef.vos ./Model/StCalls.vos
-./Extract/C04x.vo ./Extract/C04x.glob ./Extract/C04x.v.beautified ./Extract/C04x.required_vo: ./Extract/C04x.v ./Model/Fb.vo ./Spec/C04.vo ./Spec/C04Judge.vo
-./Extract/C04x.vio: ./Extract/C04x.v ./Model/Fb.vio ./Spec/C04.vio ./Spec/C04Judge.vio
-./Extract/C04x.vos ./Extract/C04x.vok ./Extract/C04x.required_vos: ./Extract/C04x.v ./Model/Fb.vos ./Spec/C04.vos ./Spec/C04Judge.vos
-./Extract/C06x.vo ./Extract/C06x.glob ./Extract/C06x.v.beautified ./Extract/C06x.required_vo: ./Extract/C06x.v ./Model/Sched.vo ./Spec/C06Judge.vo
-./Extract/C06x.vio: ./Extract/C06x.v ./Model/Sched.vio ./Spec/C06Judge.vio
-./Extract/C06x.vos ./Extract/C06x.vok ./Extract/C06x.required_vos: ./Extract/C06x.v ./Model/Sched.vos ./Spec/C06Judge.vos
-./Extract/C07x.vo ./Extract/C07x.glob ./Extract/C07x.v.beautified ./Extract/C07x.required_vo: ./Extract/C07x.v ./Model/Io.vo ./Model/Cycle.vo ./Spec/C07Judge.vo
-./Extract/C07x.vio: ./Extract/C07x.v ./Model/Io.vio ./Model/Cycle.vio ./Spec/C07Judge.vio
-./Extract/C07x.vos ./Extract/C07x.vok ./Extract/C07x.required_vos: ./Extract/C07x.v ./Model/Io.vos ./Model/Cycle.vos ./Spec/C07Judge.vos
-./Extract/C09x.vo ./Extract/C09x.glob ./Extract/C09x.v.beautified ./Extract/C09x.required_vo: ./Extract/C09x.v ./Model/Restart.vo ./Model/RestartTasks.vo ./Spec/C09Judge.vo
-./Extract/C09x.vio: ./Extract/C09x.v ./Model/Restart.vio ./Model/RestartTasks.vio ./Spec/C09Judge.vio
-./Extract/C09x.vos ./Extract/C09x.vok ./Extract/C09x.required_vos: ./Extract/C09x.v ./Model/Restart.vos ./Model/RestartTasks.vos ./Spec/C09Judge.vos
-./Extract/C10x.vo ./Extract/C10x.glob ./Extract/C10x.v.beautified ./Extract/C10x.required_vo: ./Extract/C10x.v ./Model/RetainCodec.vo ./Model/CrashFs.vo
-./Extract/C10x.vio: ./Extract/C10x.v ./Model/RetainCodec.vio ./Model/CrashFs.vio
-./Extract/C10x.vos ./Extract/C10x.vok ./Extract/C10x.required_vos: ./Extract/C10x.v ./Model/RetainCodec.vos ./Model/CrashFs.vos
-./Extract/C11x.vo ./Extract/C11x.glob ./Extract/C11x.v.beautified ./Extract/C11x.required_vo: ./Extract/C11x.v ./Model/Stbc.vo ./Spec/C11Judge.vo
-./Extract/C11x.vio: ./Extract/C11x.v ./Model/Stbc.vio ./Spec/C11Judge.vio
-./Extract/C11x.vos ./Extract/C11x.vok ./Extract/C11x.required_vos: ./Extract/C11x.v ./Model/Stbc.vos ./Spec/C11Judge.vos
-./Extract/C12x.vo ./Extract/C12x.glob ./Extract/C12x.v.beautified ./Extract/C12x.required_vo: ./Extract/C12x.v ./Model/LexSink.vo ./Spec/C12Judge.vo
-./Extract/C12x.vio: ./Extract/C12x.v ./Model/LexSink.vio ./Spec/C12Judge.vio
-./Extract/C12x.vos ./Extract/C12x.vok ./Extract/C12x.required_vos: ./Extract/C12x.v ./Model/LexSink.vos ./Spec/C12Judge.vos
-./Extract/C13x.vo ./Extract/C13x.glob ./Extract/C13x.v.beautified ./Extract/C13x.required_vo: ./Extract/C13x.v ./Model/HirDb.vo
-./Extract/C13x.vio: ./Extract/C13x.v ./Model/HirDb.vio
-./Extract/C13x.vos ./Extract/C13x.vok ./Extract/C13x.required_vos: ./Extract/C13x.v ./Model/HirDb.vos
-./Extract/C14x.vo ./Extract/C14x.glob ./Extract/C14x.v.beautified ./Extract/C14x.required_vo: ./Extract/C14x.v ./Model/LspText.vo ./Spec/C14.vo
-./Extract/C14x.vio: ./Extract/C14x.v ./Model/LspText.vio ./Spec/C14.vio
-./Extract/C14x.vos ./Extract/C14x.vok ./Extract/C14x.required_vos: ./Extract/C14x.v ./Model/LspText.vos ./Spec/C14.vos
-./Extract/C15x.vo ./Extract/C15x.glob ./Extract/C15x.v.beautified ./Extract/C15x.required_vo: ./Extract/C15x.v ./Model/FmtEdit.vo ./Spec/C15Judge.vo
-./Extract/C15x.vio: ./Extract/C15x.v ./Model/FmtEdit.vio ./Spec/C15Judge.vio
-./Extract/C15x.vos ./Extract/C15x.vok ./Extract/C15x.required_vos: ./Extract/C15x.v ./Model/FmtEdit.vos ./Spec/C15Judge.vos
-./Extract/C16x.vo ./Extract/C16x.glob ./Extract/C16x.v.beautified ./Extract/C16x.required_vo: ./Extract/C16x.v ./Model/Rename.vo
-./Extract/C16x.vio: ./Extract/C16x.v ./Model/Rename.vio
-./Extract/C16x.vos ./Extract/C16x.vok ./Extract/C16x.required_vos: ./Extract/C16x.v ./Model/Rename.vos
-./Extract/C17x.vo ./Extract/C17x.glob ./Extract/C17x.v.beautified ./Extract/C17x.required_vo: ./Extract/C17x.v ./Model/Debug.vo ./Spec/C17Judge.vo
-./Extract/C17x.vio: ./Extract/C17x.v ./Model/Debug.vio ./Spec/C17Judge.vio
-./Extract/C17x.vos ./Extract/C17x.vok ./Extract/C17x.required_vos: ./Extract/C17x.v ./Model/Debug.vos ./Spec/C17Judge.vos
-./Extract/C18x.vo ./Extract/C18x.glob ./Extract/C18x.v.beautified ./Extract/C18x.required_vo: ./Extract/C18x.v ./gen/C18Tables.vo ./Model/Control.vo ./Spec/C18.vo ./Spec/C18Judge.vo
-./Extract/C18x.vio: ./Extract/C18x.v ./gen/C18Tables.vio ./Model/Control.vio ./Spec/C18.vio ./Spec/C18Judge.vio
-./Extract/C18x.vos ./Extract/C18x.vok ./Extract/C18x.required_vos: ./Extract/C18x.v ./gen/C18Tables.vos ./Model/Control.vos ./Spec/C18.vos ./Spec/C18Judge.vos
-./Extract/C19x.vo ./Extract/C19x.glob ./Extract/C19x.v.beautified ./Extract/C19x.required_vo: ./Extract/C19x.v ./Model/WebIde.vo ./Model/WebIdeDocs.vo ./Spec/C19Judge.vo
-./Extract/C19x.vio: ./Extract/C19x.v ./Model/WebIde.vio ./Model/WebIdeDocs.vio ./Spec/C19Judge.vio
-./Extract/C19x.vos ./Extract/C19x.vok ./Extract/C19x.required_vos: ./Extract/C19x.v ./Model/WebIde.vos ./Model/WebIdeDocs.vos ./Spec/C19Judge.vos
-./Extract/C20x.vo ./Extract/C20x.glob ./Extract/C20x.v.beautified ./Extract/C20x.required_vo: ./Extract/C20x.v ./Model/Resource.vo ./Spec/C20Judge.vo
-./Extract/C20x.vio: ./Extract/C20x.v ./Model/Resource.vio ./Spec/C20Judge.vio
-./Extract/C20x.vos ./Extract/C20x.vok ./Extract/C20x.required_vos: ./Extract/C20x.v ./Model/Resource.vos ./Spec/C20Judge.vos
-./Model/Control.vo ./Model/Control.glob ./Model/Control.v.beautified ./Model/Control.required_vo: ./Model/Control.v ./gen/C18Tables.vo
-./Model/Control.vio: ./Model/Control.v ./gen/C18Tables.vio
-./Model/Control.vos ./Model/Control.vok ./Model/Control.required_vos: ./Model/Control.v ./gen/C18Tables.vos
-./Model/CrashFs.vo ./Model/CrashFs.glob ./Model/CrashFs.v.beautified ./Model/CrashFs.required_vo: ./Model/CrashFs.v 
-./Model/CrashFs.vio: ./Model/CrashFs.v 
-./Model/CrashFs.vos ./Model/CrashFs.vok ./Model/CrashFs.required_vos: ./Model/CrashFs.v 
-./Model/Cycle.vo ./Model/Cycle.glob ./Model/Cycle.v.beautified ./Model/Cycle.required_vo: ./Model/Cycle.v ./Model/Io.vo
-./Model/Cycle.vio: ./Model/Cycle.v ./Model/Io.vio
-./Model/Cycle.vos ./Model/Cycle.vok ./Model/Cycle.required_vos: ./Model/Cycle.v ./Model/Io.vos
-./Model/Debug.vo ./Model/Debug.glob ./Model/Debug.v.beautified ./Model/Debug.required_vo: ./Model/Debug.v 
-./Model/Debug.vio: ./Model/Debug.v 
-./Model/Debug.vos ./Model/Debug.vok ./Model/Debug.required_vos: ./Model/Debug.v 
-./Model/Fb.vo ./Model/Fb.glob ./Model/Fb.v.beautified ./Model/Fb.required_vo: ./Model/Fb.v 
-./Model/Fb.vio: ./Model/Fb.v 
-./Model/Fb.vos ./Model/Fb.vok ./Model/Fb.required_vos: ./Model/Fb.v 
-./Model/FmtEdit.vo ./Model/FmtEdit.glob ./Model/FmtEdit.v.beautified ./Model/FmtEdit.required_vo: ./Model/FmtEdit.v 
-./Model/FmtEdit.vio: ./Model/FmtEdit.v 
-./Model/FmtEdit.vos ./Model/FmtEdit.vok ./Model/FmtEdit.required_vos: ./Model/FmtEdit.v 
-./Model/FmtIndent.vo ./Model/FmtIndent.glob ./Model/FmtIndent.v.beautified ./Model/FmtIndent.required_vo: ./Model/FmtIndent.v 
-./Model/FmtIndent.vio: ./Model/FmtIndent.v 
-./Model/FmtIndent.vos ./Model/FmtIndent.vok ./Model/FmtIndent.required_vos: ./Model/FmtIndent.v 
-./Model/HirDb.vo ./Model/HirDb.glob ./Model/HirDb.v.beautified ./Model/HirDb.required_vo: ./Model/HirDb.v 
-./Model/HirDb.vio: ./Model/HirDb.v 
-./Model/HirDb.vos ./Model/HirDb.vok ./Model/HirDb.required_vos: ./Model/HirDb.v 
-./Model/Io.vo ./Model/Io.glob ./Model/Io.v.beautified ./Model/Io.required_vo: ./Model/Io.v 
-./Model/Io.vio: ./Model/Io.v 
-./Model/Io.vos ./Model/Io.vok ./Model/Io.required_vos: ./Model/Io.v 
-./Model/LexSink.vo ./Model/LexSink.glob ./Model/LexSink.v.beautified ./Model/LexSink.required_vo: ./Model/LexSink.v 
-./Model/LexSink.vio: ./Model/LexSink.v 
-./Model/LexSink.vos ./Model/LexSink.vok ./Model/LexSink.required_vos: ./Model/LexSink.v 
-./Model/LspText.vo ./Model/LspText.glob ./Model/LspText.v.beautified ./Model/LspText.required_vo: ./Model/LspText.v 
-./Model/LspText.vio: ./Model/LspText.v 
-./Model/LspText.vos ./Model/LspText.vok ./Model/LspText.required_vos: ./Model/LspText.v 
-./Model/OrderOblivious.vo ./Model/OrderOblivious.glob ./Model/OrderOblivious.v.beautified ./Model/OrderOblivious.required_vo: ./Model/OrderOblivious.v 
-./Model/OrderOblivious.vio: ./Model/OrderOblivious.v 
-./Model/OrderOblivious.vos ./Model/OrderOblivious.vok ./Model/OrderOblivious.required_vos: ./Model/OrderOblivious.v 
-./Model/Rename.vo ./Model/Rename.glob ./Model/Rename.v.beautified ./Model/Rename.required_vo: ./Model/Rename.v 
-./Model/Rename.vio: ./Model/Rename.v 
-./Model/Rename.vos ./Model/Rename.vok ./Model/Rename.required_vos: ./Model/Rename.v 
-./Model/Resource.vo ./Model/Resource.glob ./Model/Resource.v.beautified ./Model/Resource.required_vo: ./Model/Resource.v 
-./Model/Resource.vio: ./Model/Resource.v 
-./Model/Resource.vos ./Model/Resource.vok ./Model/Resource.required_vos: ./Model/Resource.v 
-./Model/Restart.vo ./Model/Restart.glob ./Model/Restart.v.beautified ./Model/Restart.required_vo: ./Model/Restart.v 
-./Model/Restart.vio: ./Model/Restart.v 
-./Model/Restart.vos ./Model/Restart.vok ./Model/Restart.required_vos: ./Model/Restart.v 
-./Model/RestartTasks.vo ./Model/RestartTasks.glob ./Model/RestartTasks.v.beautified ./Model/RestartTasks.required_vo: ./Model/RestartTasks.v 
-./Model/RestartTasks.vio: ./Model/RestartTasks.v 
-./Model/RestartTasks.vos ./Model/RestartTasks.vok ./Model/RestartTasks.required_vos: ./Model/RestartTasks.v 
-./Model/RetainCodec.vo ./Model/RetainCodec.glob ./Model/RetainCodec.v.beautified ./Model/RetainCodec.required_vo: ./Model/RetainCodec.v 
-./Model/RetainCodec.vio: ./Model/RetainCodec.v 
-./Model/RetainCodec.vos ./Model/RetainCodec.vok ./Model/RetainCodec.required_vos: ./Model/RetainCodec.v 
-./Model/Sched.vo ./Model/Sched.glob ./Model/Sched.v.beautified ./Model/Sched.required_vo: ./Model/Sched.v 
-./Model/Sched.vio: ./Model/Sched.v 
-./Model/Sched.vos ./Model/Sched.vok ./Model/Sched.required_vos: ./Model/Sched.v 
-./Model/StCalls.vo ./Model/StCalls.glob ./Model/StCalls.v.beautified ./Model/StCalls.required_vo: ./Model/StCalls.v ./Model/StCore.vo
-./Model/StCalls.vio: ./Model/StCalls.v ./Model/StCore.vio
-./Model/StCalls.vos ./Model/StCalls.vok ./Model/StCalls.required_vos: ./Model/StCalls.v ./Model/StCore.vos
-./Model/StCore.vo ./Model/StCore.glob ./Model/StCore.v.beautified ./Model/StCore.required_vo: ./Model/StCore.v 
-./Model/StCore.vio: ./Model/StCore.v 
-./Model/StCore.vos ./Model/StCore.vok ./Model/StCore.required_vos: ./Model/StCore.v 
-./Model/StRef.vo ./Model/StRef.glob ./Model/StRef.v.beautified ./Model/StRef.required_vo: ./Model/StRef.v ./Model/StCore.vo ./Model/StTyping.vo
-./Model/StRef.vio: ./Model/StRef.v ./Model/StCore.vio ./Model/StTyping.vio
-./Model/StRef.vos ./Model/StRef.vok ./Model/StRef.required_vos: ./Model/StRef.v ./Model/StCore.vos ./Model/StTyping.vos
-./Model/StTyping.vo ./Model/StTyping.glob ./Model/StTyping.v.beautified ./Model/StTyping.required_vo: ./Model/StTyping.v ./Model/StCore.vo
-./Model/StTyping.vio: ./Model/StTyping.v ./Model/StCore.vio
-./Model/StTyping.vos ./Model/StTyping.vok ./Model/StTyping.required_vos: ./Model/StTyping.v ./Model/StCore.vos
-./Model/Stbc.vo ./Model/Stbc.glob ./Model/Stbc.v.beautified ./Model/Stbc.required_vo: ./Model/Stbc.v 
-./Model/Stbc.vio: ./Model/Stbc.v 
-./Model/Stbc.vos ./Model/Stbc.vok ./Model/Stbc.required_vos: ./Model/Stbc.v 
-./Model/StbcEnc.vo ./Model/StbcEnc.glob ./Model/StbcEnc.v.beautified ./Model/StbcEnc.required_vo: ./Model/StbcEnc.v ./Model/Stbc.vo
-./Model/StbcEnc.vio: ./Model/StbcEnc.v ./Model/Stbc.vio
-./Model/StbcEnc.vos ./Model/StbcEnc.vok ./Model/StbcEnc.required_vos: ./Model/StbcEnc.v ./Model/Stbc.vos
-./Model/WebIde.vo ./Model/WebIde.glob ./Model/WebIde.v.beautified ./Model/WebIde.required_vo: ./Model/WebIde.v 
-./Model/WebIde.vio: ./Model/WebIde.v 
-./Model/WebIde.vos ./Model/WebIde.vok ./Model/WebIde.required_vos: ./Model/WebIde.v 
-./Model/WebIdeDocs.vo ./Model/WebIdeDocs.glob ./Model/WebIdeDocs.v.beautified ./Model/WebIdeDocs.required_vo: ./Model/WebIdeDocs.v ./Model/WebIde.vo
-./Model/WebIdeDocs.vio: ./Model/WebIdeDocs.v ./Model/WebIde.vio
-./Model/WebIdeDocs.vos ./Model/WebIdeDocs.vok ./Model/WebIdeDocs.required_vos: ./Model/WebIdeDocs.v ./Model/WebIde.vos
-./Proofs/C02Proofs.vo ./Proofs/C02Proofs.glob ./Proofs/C02Proofs.v.beautified ./Proofs/C02Proofs.required_vo: ./Proofs/C02Proofs.v ./Model/StCore.vo ./Model/StTyping.vo ./Model/StRef.vo
-./Proofs/C02Proofs.vio: ./Proofs/C02Proofs.v ./Model/StCore.vio ./Model/StTyping.vio ./Model/StRef.vio
-./Proofs/C02Proofs.vos ./Proofs/C02Proofs.vok ./Proofs/C02Proofs.required_vos: ./Proofs/C02Proofs.v ./Model/StCore.vos ./Model/StTyping.vos ./Model/StRef.vos
-./Proofs/C02Refine.vo ./Proofs/C02Refine.glob ./Proofs/C02Refine.v.beautified ./Proofs/C02Refine.required_vo: ./Proofs/C02Refine.v ./Model/StCore.vo ./Model/StTyping.vo ./Model/StRef.vo ./Proofs/StProofs.vo
-./Proofs/C02Refine.vio: ./Proofs/C02Refine.v ./Model/StCore.vio ./Model/StTyping.vio ./Model/StRef.vio ./Proofs/StProofs.vio
-./Proofs/C02Refine.vos ./Proofs/C02Refine.vok ./Proofs/C02Refine.required_vos: ./Proofs/C02Refine.v ./Model/StCore.vos ./Model/StTyping.vos ./Model/StRef.vos ./Proofs/StProofs.vos
-./Proofs/C04Proofs.vo ./Proofs/C04Proofs.glob ./Proofs/C04Proofs.v.beautified ./Proofs/C04Proofs.required_vo: ./Proofs/C04Proofs.v ./Model/Fb.vo ./Spec/C04.vo
-./Proofs/C04Proofs.vio: ./Proofs/C04Proofs.v ./Model/Fb.vio ./Spec/C04.vio
-./Proofs/C04Proofs.vos ./Proofs/C04Proofs.vok ./Proofs/C04Proofs.required_vos: ./Proofs/C04Proofs.v ./Model/Fb.vos ./Spec/C04.vos
-./Proofs/C05Proofs.vo ./Proofs/C05Proofs.glob ./Proofs/C05Proofs.v.beautified ./Proofs/C05Proofs.required_vo: ./Proofs/C05Proofs.v ./Model/OrderOblivious.vo ./gen/C05Sites.vo
-./Proofs/C05Proofs.vio: ./Proofs/C05Proofs.v ./Model/OrderOblivious.vio ./gen/C05Sites.vio
-./Proofs/C05Proofs.vos ./Proofs/C05Proofs.vok ./Proofs/C05Proofs.required_vos: ./Proofs/C05Proofs.v ./Model/OrderOblivious.vos ./gen/C05Sites.vos
-./Proofs/C06Proofs.vo ./Proofs/C06Proofs.glob ./Proofs/C06Proofs.v.beautified ./Proofs/C06Proofs.required_vo: ./Proofs/C06Proofs.v ./Model/Sched.vo ./Spec/C06.vo
-./Proofs/C06Proofs.vio: ./Proofs/C06Proofs.v ./Model/Sched.vio ./Spec/C06.vio
-./Proofs/C06Proofs.vos ./Proofs/C06Proofs.vok ./Proofs/C06Proofs.required_vos: ./Proofs/C06Proofs.v ./Model/Sched.vos ./Spec/C06.vos
-./Proofs/C09Proofs.vo ./Proofs/C09Proofs.glob ./Proofs/C09Proofs.v.beautified ./Proofs/C09Proofs.required_vo: ./Proofs/C09Proofs.v ./Model/Restart.vo ./Model/RestartTasks.vo
-./Proofs/C09Proofs.vio: ./Proofs/C09Proofs.v ./Model/Restart.vio ./Model/RestartTasks.vio
-./Proofs/C09Proofs.vos ./Proofs/C09Proofs.vok ./Proofs/C09Proofs.required_vos: ./Proofs/C09Proofs.v ./Model/Restart.vos ./Model/RestartTasks.vos
-./Proofs/C10Proofs.vo ./Proofs/C10Proofs.glob ./Proofs/C10Proofs.v.beautified ./Proofs/C10Proofs.required_vo: ./Proofs/C10Proofs.v ./Model/RetainCodec.vo ./Model/CrashFs.vo
-./Proofs/C10Proofs.vio: ./Proofs/C10Proofs.v ./Model/RetainCodec.vio ./Model/CrashFs.vio
-./Proofs/C10Proofs.vos ./Proofs/C10Proofs.vok ./Proofs/C10Proofs.required_vos: ./Proofs/C10Proofs.v ./Model/RetainCodec.vos ./Model/CrashFs.vos
-./Proofs/C11Frame.vo ./Proofs/C11Frame.glob ./Proofs/C11Frame.v.beautified ./Proofs/C11Frame.required_vo: ./Proofs/C11Frame.v ./Model/Stbc.vo ./Model/StbcEnc.vo ./Proofs/C11Proofs.vo
-./Proofs/C11Frame.vio: ./Proofs/C11Frame.v ./Model/Stbc.vio ./Model/StbcEnc.vio ./Proofs/C11Proofs.vio
-./Proofs/C11Frame.vos ./Proofs/C11Frame.vok ./Proofs/C11Frame.required_vos: ./Proofs/C11Frame.v ./Model/Stbc.vos ./Model/StbcEnc.vos ./Proofs/C11Proofs.vos
-./Proofs/C11Proofs.vo ./Proofs/C11Proofs.glob ./Proofs/C11Proofs.v.beautified ./Proofs/C11Proofs.required_vo: ./Proofs/C11Proofs.v ./Model/Stbc.vo
-./Proofs/C11Proofs.vio: ./Proofs/C11Proofs.v ./Model/Stbc.vio
-./Proofs/C11Proofs.vos ./Proofs/C11Proofs.vok ./Proofs/C11Proofs.required_vos: ./Proofs/C11Proofs.v ./Model/Stbc.vos
-./Proofs/C12Proofs.vo ./Proofs/C12Proofs.glob ./Proofs/C12Proofs.v.beautified ./Proofs/C12Proofs.required_vo: ./Proofs/C12Proofs.v ./Model/LexSink.vo
-./Proofs/C12Proofs.vio: ./Proofs/C12Proofs.v ./Model/LexSink.vio
-./Proofs/C12Proofs.vos ./Proofs/C12Proofs.vok ./Proofs/C12Proofs.required_vos: ./Proofs/C12Proofs.v ./Model/LexSink.vos
-./Proofs/C13Proofs.vo ./Proofs/C13Proofs.glob ./Proofs/C13Proofs.v.beautified ./Proofs/C13Proofs.required_vo: ./Proofs/C13Proofs.v ./Model/HirDb.vo
-./Proofs/C13Proofs.vio: ./Proofs/C13Proofs.v ./Model/HirDb.vio
-./Proofs/C13Proofs.vos ./Proofs/C13Proofs.vok ./Proofs/C13Proofs.required_vos: ./Proofs/C13Proofs.v ./Model/HirDb.vos
-./Proofs/C14Proofs.vo ./Proofs/C14Proofs.glob ./Proofs/C14Proofs.v.beautified ./Proofs/C14Proofs.required_vo: ./Proofs/C14Proofs.v ./Model/LspText.vo ./Spec/C14.vo
-./Proofs/C14Proofs.vio: ./Proofs/C14Proofs.v ./Model/LspText.vio ./Spec/C14.vio
-./Proofs/C14Proofs.vos ./Proofs/C14Proofs.vok ./Proofs/C14Proofs.required_vos: ./Proofs/C14Proofs.v ./Model/LspText.vos ./Spec/C14.vos
-./Proofs/C15Indent.vo ./Proofs/C15Indent.glob ./Proofs/C15Indent.v.beautified ./Proofs/C15Indent.required_vo: ./Proofs/C15Indent.v ./Model/FmtIndent.vo ./gen/C15Kinds.vo ./Spec/C15Judge.vo
-./Proofs/C15Indent.vio: ./Proofs/C15Indent.v ./Model/FmtIndent.vio ./gen/C15Kinds.vio ./Spec/C15Judge.vio
-./Proofs/C15Indent.vos ./Proofs/C15Indent.vok ./Proofs/C15Indent.required_vos: ./Proofs/C15Indent.v ./Model/FmtIndent.vos ./gen/C15Kinds.vos ./Spec/C15Judge.vos
-./Proofs/C15Proofs.vo ./Proofs/C15Proofs.glob ./Proofs/C15Proofs.v.beautified ./Proofs/C15Proofs.required_vo: ./Proofs/C15Proofs.v ./Model/FmtEdit.vo
-./Proofs/C15Proofs.vio: ./Proofs/C15Proofs.v ./Model/FmtEdit.vio
-./Proofs/C15Proofs.vos ./Proofs/C15Proofs.vok ./Proofs/C15Proofs.required_vos: ./Proofs/C15Proofs.v ./Model/FmtEdit.vos
-./Proofs/C16Proofs.vo ./Proofs/C16Proofs.glob ./Proofs/C16Proofs.v.beautified ./Proofs/C16Proofs.required_vo: ./Proofs/C16Proofs.v ./Model/Rename.vo
-./Proofs/C16Proofs.vio: ./Proofs/C16Proofs.v ./Model/Rename.vio
-./Proofs/C16Proofs.vos ./Proofs/C16Proofs.vok ./Proofs/C16Proofs.required_vos: ./Proofs/C16Proofs.v ./Model/Rename.vos
-./Proofs/C17Inv.vo ./Proofs/C17Inv.glob ./Proofs/C17Inv.v.beautified ./Proofs/C17Inv.required_vo: ./Proofs/C17Inv.v ./Model/Debug.vo
-./Proofs/C17Inv.vio: ./Proofs/C17Inv.v ./Model/Debug.vio
-./Proofs/C17Inv.vos ./Proofs/C17Inv.vok ./Proofs/C17Inv.required_vos: ./Proofs/C17Inv.v ./Model/Debug.vos
-./Proofs/C17Proofs.vo ./Proofs/C17Proofs.glob ./Proofs/C17Proofs.v.beautified ./Proofs/C17Proofs.required_vo: ./Proofs/C17Proofs.v ./Model/Debug.vo ./Proofs/C17Inv.vo
-./Proofs/C17Proofs.vio: ./Proofs/C17Proofs.v ./Model/Debug.vio ./Proofs/C17Inv.vio
-./Proofs/C17Proofs.vos ./Proofs/C17Proofs.vok ./Proofs/C17Proofs.required_vos: ./Proofs/C17Proofs.v ./Model/Debug.vos ./Proofs/C17Inv.vos
-./Proofs/C18Proofs.vo ./Proofs/C18Proofs.glob ./Proofs/C18Proofs.v.beautified ./Proofs/C18Proofs.required_vo: ./Proofs/C18Proofs.v ./gen/C18Tables.vo ./Model/Control.vo ./Spec/C18.vo
-./Proofs/C18Proofs.vio: ./Proofs/C18Proofs.v ./gen/C18Tables.vio ./Model/Control.vio ./Spec/C18.vio
-./Proofs/C18Proofs.vos ./Proofs/C18Proofs.vok ./Proofs/C18Proofs.required_vos: ./Proofs/C18Proofs.v ./gen/C18Tables.vos ./Model/Control.vos ./Spec/C18.vos
-./Proofs/C19Proofs.vo ./Proofs/C19Proofs.glob ./Proofs/C19Proofs.v.beautified ./Proofs/C19Proofs.required_vo: ./Proofs/C19Proofs.v ./Model/WebIde.vo ./Model/WebIdeDocs.vo
-./Proofs/C19Proofs.vio: ./Proofs/C19Proofs.v ./Model/WebIde.vio ./Model/WebIdeDocs.vio
-./Proofs/C19Proofs.vos ./Proofs/C19Proofs.vok ./Proofs/C19Proofs.required_vos: ./Proofs/C19Proofs.v ./Model/WebIde.vos ./Model/WebIdeDocs.vos
-./Proofs/C20Proofs.vo ./Proofs/C20Proofs.glob ./Proofs/C20Proofs.v.beautified ./Proofs/C20Proofs.required_vo: ./Proofs/C20Proofs.v ./Model/Resource.vo
-./Proofs/C20Proofs.vio: ./Proofs/C20Proofs.v ./Model/Resource.vio
-./Proofs/C20Proofs.vos ./Proofs/C20Proofs.vok ./Proofs/C20Proofs.required_vos: ./Proofs/C20Proofs.v ./Model/Resource.vos
-./Proofs/CycleProofs.vo ./Proofs/CycleProofs.glob ./Proofs/CycleProofs.v.beautified ./Proofs/CycleProofs.required_vo: ./Proofs/CycleProofs.v ./Model/Io.vo ./Model/Cycle.vo ./Proofs/IoProofs.vo
-./Proofs/CycleProofs.vio: ./Proofs/CycleProofs.v ./Model/Io.vio ./Model/Cycle.vio ./Proofs/IoProofs.vio
-./Proofs/CycleProofs.vos ./Proofs/CycleProofs.vok ./Proofs/CycleProofs.required_vos: ./Proofs/CycleProofs.v ./Model/Io.vos ./Model/Cycle.vos ./Proofs/IoProofs.vos
-./Proofs/IoProofs.vo ./Proofs/IoProofs.glob ./Proofs/IoProofs.v.beautified ./Proofs/IoProofs.required_vo: ./Proofs/IoProofs.v ./Model/Io.vo
-./Proofs/IoProofs.vio: ./Proofs/IoProofs.v ./Model/Io.vio
-./Proofs/IoProofs.vos ./Proofs/IoProofs.vok ./Proofs/IoProofs.required_vos: ./Proofs/IoProofs.v ./Model/Io.vos
-./Proofs/StCallsProofs.vo ./Proofs/StCallsProofs.glob ./Proofs/StCallsProofs.v.beautified ./Proofs/StCallsProofs.required_vo: ./Proofs/StCallsProofs.v ./Model/StCore.vo ./Model/StCalls.vo
-./Proofs/StCallsProofs.vio: ./Proofs/StCallsProofs.v ./Model/StCore.vio ./Model/StCalls.vio
-./Proofs/StCallsProofs.vos ./Proofs/StCallsProofs.vok ./Proofs/StCallsProofs.required_vos: ./Proofs/StCallsProofs.v ./Model/StCore.vos ./Model/StCalls.vos
-./Proofs/StCallsTyping.vo ./Proofs/StCallsTyping.glob ./Proofs/StCallsTyping.v.beautified ./Proofs/StCallsTyping.required_vo: ./Proofs/StCallsTyping.v ./Model/StCore.vo ./Model/StTyping.vo ./Model/StCalls.vo ./Proofs/StProofs.vo ./Proofs/StCallsProofs.vo
-./Proofs/StCallsTyping.vio: ./Proofs/StCallsTyping.v ./Model/StCore.vio ./Model/StTyping.vio ./Model/StCalls.vio ./Proofs/StProofs.vio ./Proofs/StCallsProofs.vio
-./Proofs/StCallsTyping.vos ./Proofs/StCallsTyping.vok ./Proofs/StCallsTyping.required_vos: ./Proofs/StCallsTyping.v ./Model/StCore.vos ./Model/StTyping.vos ./Model/StCalls.vos ./Proofs/StProofs.vos ./Proofs/StCallsProofs.vos
-./Proofs/StProofs.vo ./Proofs/StProofs.glob ./Proofs/StProofs.v.beautified ./Proofs/StProofs.required_vo: ./Proofs/StProofs.v ./Model/StCore.vo ./Model/StTyping.vo
-./Proofs/StProofs.vio: ./Proofs/StProofs.v ./Model/StCore.vio ./Model/StTyping.vio
-./Proofs/StProofs.vos ./Proofs/StProofs.vok ./Proofs/StProofs.required_vos: ./Proofs/StProofs.v ./Model/StCore.vos ./Model/StTyping.vos
-./Properties/C01.vo ./Properties/C01.glob ./Properties/C01.v.beautified ./Properties/C01.required_vo: ./Properties/C01.v ./Model/StCore.vo ./Model/StTyping.vo ./Proofs/StProofs.vo ./Model/StCalls.vo ./Proofs/StCallsProofs.vo ./Proofs/StCallsTyping.vo
-./Properties/C01.vio: ./Properties/C01.v ./Model/StCore.vio ./Model/StTyping.vio ./Proofs/StProofs.vio ./Model/StCalls.vio ./Proofs/StCallsProofs.vio ./Proofs/StCallsTyping.vio
-./Properties/C01.vos ./Properties/C01.vok ./Properties/C01.required_vos: ./Properties/C01.v ./Model/StCore.vos ./Model/StTyping.vos ./Proofs/StProofs.vos ./Model/StCalls.vos ./Proofs/StCallsProofs.vos ./Proofs/StCallsTyping.vos
-./Properties/C02.vo ./Properties/C02.glob ./Properties/C02.v.beautified ./Properties/C02.required_vo: ./Properties/C02.v ./Model/StCore.vo ./Model/StTyping.vo ./Model/StRef.vo ./Proofs/StProofs.vo ./Proofs/C02Proofs.vo ./Proofs/C02Refine.vo
-./Properties/C02.vio: ./Properties/C02.v ./Model/StCore.vio ./Model/StTyping.vio ./Model/StRef.vio ./Proofs/StProofs.vio ./Proofs/C02Proofs.vio ./Proofs/C02Refine.vio
-./Properties/C02.vos ./Properties/C02.vok ./Properties/C02.required_vos: ./Properties/C02.v ./Model/StCore.vos ./Model/StTyping.vos ./Model/StRef.vos ./Proofs/StProofs.vos ./Proofs/C02Proofs.vos ./Proofs/C02Refine.vos
-./Properties/C03.vo ./Properties/C03.glob ./Properties/C03.v.beautified ./Properties/C03.required_vo: ./Properties/C03.v ./Model/StCore.vo ./Model/StTyping.vo ./Proofs/StProofs.vo
-./Properties/C03.vio: ./Properties/C03.v ./Model/StCore.vio ./Model/StTyping.vio ./Proofs/StProofs.vio
-./Properties/C03.vos ./Properties/C03.vok ./Properties/C03.required_vos: ./Properties/C03.v ./Model/StCore.vos ./Model/StTyping.vos ./Proofs/StProofs.vos
-./Properties/C04.vo ./Properties/C04.glob ./Properties/C04.v.beautified ./Properties/C04.required_vo: ./Properties/C04.v ./Model/Fb.vo ./Spec/C04.vo ./Proofs/C04Proofs.vo
-./Properties/C04.vio: ./Properties/C04.v ./Model/Fb.vio ./Spec/C04.vio ./Proofs/C04Proofs.vio
-./Properties/C04.vos ./Properties/C04.vok ./Properties/C04.required_vos: ./Properties/C04.v ./Model/Fb.vos ./Spec/C04.vos ./Proofs/C04Proofs.vos
-./Properties/C05.vo ./Properties/C05.glob ./Properties/C05.v.beautified ./Properties/C05.required_vo: ./Properties/C05.v ./Model/OrderOblivious.vo ./gen/C05Sites.vo ./Proofs/C05Proofs.vo
-./Properties/C05.vio: ./Properties/C05.v ./Model/OrderOblivious.vio ./gen/C05Sites.vio ./Proofs/C05Proofs.vio
-./Properties/C05.vos ./Properties/C05.vok ./Properties/C05.required_vos: ./Properties/C05.v ./Model/OrderOblivious.vos ./gen/C05Sites.vos ./Proofs/C05Proofs.vos
-./Properties/C06.vo ./Properties/C06.glob ./Properties/C06.v.beautified ./Properties/C06.required_vo: ./Properties/C06.v ./Model/Sched.vo ./Spec/C06.vo ./Proofs/C06Proofs.vo
-./Properties/C06.vio: ./Properties/C06.v ./Model/Sched.vio ./Spec/C06.vio ./Proofs/C06Proofs.vio
-./Properties/C06.vos ./Properties/C06.vok ./Properties/C06.required_vos: ./Properties/C06.v ./Model/Sched.vos ./Spec/C06.vos ./Proofs/C06Proofs.vos
-./Properties/C07.vo ./Properties/C07.glob ./Properties/C07.v.beautified ./Properties/C07.required_vo: ./Properties/C07.v ./Model/Io.vo ./Model/Cycle.vo ./Proofs/IoProofs.vo ./Proofs/CycleProofs.vo
-./Properties/C07.vio: ./Properties/C07.v ./Model/Io.vio ./Model/Cycle.vio ./Proofs/IoProofs.vio ./Proofs/CycleProofs.vio
-./Properties/C07.vos ./Properties/C07.vok ./Properties/C07.required_vos: ./Properties/C07.v ./Model/Io.vos ./Model/Cycle.vos ./Proofs/IoProofs.vos ./Proofs/CycleProofs.vos
-./Properties/C08.vo ./Properties/C08.glob ./Properties/C08.v.beautified ./Properties/C08.required_vo: ./Properties/C08.v ./Model/Io.vo ./Model/Cycle.vo ./Proofs/IoProofs.vo ./Proofs/CycleProofs.vo
-./Properties/C08.vio: ./Properties/C08.v ./Model/Io.vio ./Model/Cycle.vio ./Proofs/IoProofs.vio ./Proofs/CycleProofs.vio
-./Properties/C08.vos ./Properties/C08.vok ./Properties/C08.required_vos: ./Properties/C08.v ./Model/Io.vos ./Model/Cycle.vos ./Proofs/IoProofs.vos ./Proofs/CycleProofs.vos
-./Properties/C09.vo ./Properties/C09.glob ./Properties/C09.v.beautified ./Properties/C09.required_vo: ./Properties/C09.v ./Model/Restart.vo ./Model/RestartTasks.vo ./Proofs/C09Proofs.vo
-./Properties/C09.vio: ./Properties/C09.v ./Model/Restart.vio ./Model/RestartTasks.vio ./Proofs/C09Proofs.vio
-./Properties/C09.vos ./Properties/C09.vok ./Properties/C09.required_vos: ./Properties/C09.v ./Model/Restart.vos ./Model/RestartTasks.vos ./Proofs/C09Proofs.vos
-./Properties/C10.vo ./Properties/C10.glob ./Properties/C10.v.beautified ./Properties/C10.required_vo: ./Properties/C10.v ./Model/RetainCodec.vo ./Model/CrashFs.vo ./Proofs/C10Proofs.vo
-./Properties/C10.vio: ./Properties/C10.v ./Model/RetainCodec.vio ./Model/CrashFs.vio ./Proofs/C10Proofs.vio
-./Properties/C10.vos ./Properties/C10.vok ./Properties/C10.required_vos: ./Properties/C10.v ./Model/RetainCodec.vos ./Model/CrashFs.vos ./Proofs/C10Proofs.vos
-./Properties/C11.vo ./Properties/C11.glob ./Properties/C11.v.beautified ./Properties/C11.required_vo: ./Properties/C11.v ./Model/Stbc.vo ./Model/StbcEnc.vo ./Proofs/C11Proofs.vo ./Proofs/C11Frame.vo
-./Properties/C11.vio: ./Properties/C11.v ./Model/Stbc.vio ./Model/StbcEnc.vio ./Proofs/C11Proofs.vio ./Proofs/C11Frame.vio
-./Properties/C11.vos ./Properties/C11.vok ./Properties/C11.required_vos: ./Properties/C11.v ./Model/Stbc.vos ./Model/StbcEnc.vos ./Proofs/C11Proofs.vos ./Proofs/C11Frame.vos
-./Properties/C12.vo ./Properties/C12.glob ./Properties/C12.v.beautified ./Properties/C12.required_vo: ./Properties/C12.v ./Model/LexSink.vo ./Proofs/C12Proofs.vo
-./Properties/C12.vio: ./Properties/C12.v ./Model/LexSink.vio ./Proofs/C12Proofs.vio
-./Properties/C12.vos ./Properties/C12.vok ./Properties/C12.required_vos: ./Properties/C12.v ./Model/LexSink.vos ./Proofs/C12Proofs.vos
-./Properties/C13.vo ./Properties/C13.glob ./Properties/C13.v.beautified ./Properties/C13.required_vo: ./Properties/C13.v ./Model/HirDb.vo ./Proofs/C13Proofs.vo
-./Properties/C13.vio: ./Properties/C13.v ./Model/HirDb.vio ./Proofs/C13Proofs.vio
-./Properties/C13.vos ./Properties/C13.vok ./Properties/C13.required_vos: ./Properties/C13.v ./Model/HirDb.vos ./Proofs/C13Proofs.vos
-./Properties/C14.vo ./Properties/C14.glob ./Properties/C14.v.beautified ./Properties/C14.required_vo: ./Properties/C14.v ./Model/LspText.vo ./Spec/C14.vo ./Proofs/C14Proofs.vo
-./Properties/C14.vio: ./Properties/C14.v ./Model/LspText.vio ./Spec/C14.vio ./Proofs/C14Proofs.vio
-./Properties/C14.vos ./Properties/C14.vok ./Properties/C14.required_vos: ./Properties/C14.v ./Model/LspText.vos ./Spec/C14.vos ./Proofs/C14Proofs.vos
-./Properties/C15.vo ./Properties/C15.glob ./Properties/C15.v.beautified ./Properties/C15.required_vo: ./Properties/C15.v ./Model/FmtEdit.vo ./Proofs/C15Proofs.vo ./Model/FmtIndent.vo ./gen/C15Kinds.vo ./Spec/C15Judge.vo ./Proofs/C15Indent.vo
-./Properties/C15.vio: ./Properties/C15.v ./Model/FmtEdit.vio ./Proofs/C15Proofs.vio ./Model/FmtIndent.vio ./gen/C15Kinds.vio ./Spec/C15Judge.vio ./Proofs/C15Indent.vio
-./Properties/C15.vos ./Properties/C15.vok ./Properties/C15.required_vos: ./Properties/C15.v ./Model/FmtEdit.vos ./Proofs/C15Proofs.vos ./Model/FmtIndent.vos ./gen/C15Kinds.vos ./Spec/C15Judge.vos ./Proofs/C15Indent.vos
-./Properties/C16.vo ./Properties/C16.glob ./Properties/C16.v.beautified ./Properties/C16.required_vo: ./Properties/C16.v ./Model/Rename.vo ./Proofs/C16Proofs.vo
-./Properties/C16.vio: ./Properties/C16.v ./Model/Rename.vio ./Proofs/C16Proofs.vio
-./Properties/C16.vos ./Properties/C16.vok ./Properties/C16.required_vos: ./Properties/C16.v ./Model/Rename.vos ./Proofs/C16Proofs.vos
-./Properties/C17.vo ./Properties/C17.glob ./Properties/C17.v.beautified ./Properties/C17.required_vo: ./Properties/C17.v ./Model/Debug.vo ./Proofs/C17Inv.vo ./Proofs/C17Proofs.vo
-./Properties/C17.vio: ./Properties/C17.v ./Model/Debug.vio ./Proofs/C17Inv.vio ./Proofs/C17Proofs.vio
-./Properties/C17.vos ./Properties/C17.vok ./Properties/C17.required_vos: ./Properties/C17.v ./Model/Debug.vos ./Proofs/C17Inv.vos ./Proofs/C17Proofs.vos
-./Properties/C18.vo ./Properties/C18.glob ./Properties/C18.v.beautified ./Properties/C18.required_vo: ./Properties/C18.v ./gen/C18Tables.vo ./Model/Control.vo ./Spec/C18.vo ./Proofs/C18Proofs.vo
-./Properties/C18.vio: ./Properties/C18.v ./gen/C18Tables.vio ./Model/Control.vio ./Spec/C18.vio ./Proofs/C18Proofs.vio
-./Properties/C18.vos ./Properties/C18.vok ./Properties/C18.required_vos: ./Properties/C18.v ./gen/C18Tables.vos ./Model/Control.vos ./Spec/C18.vos ./Proofs/C18Proofs.vos
-./Properties/C19.vo ./Properties/C19.glob ./Properties/C19.v.beautified ./Properties/C19.required_vo: ./Properties/C19.v ./Model/WebIde.vo ./Model/WebIdeDocs.vo ./Proofs/C19Proofs.vo
-./Properties/C19.vio: ./Properties/C19.v ./Model/WebIde.vio ./Model/WebIdeDocs.vio ./Proofs/C19Proofs.vio
-./Properties/C19.vos ./Properties/C19.vok ./Properties/C19.required_vos: ./Properties/C19.v ./Model/WebIde.vos ./Model/WebIdeDocs.vos ./Proofs/C19Proofs.vos
-./Properties/C20.vo ./Properties/C20.glob ./Properties/C20.v.beautified ./Properties/C20.required_vo: ./Properties/C20.v ./Model/Resource.vo ./Proofs/C20Proofs.vo
-./Properties/C20.vio: ./Properties/C20.v ./Model/Resource.vio ./Proofs/C20Proofs.vio
-./Properties/C20.vos ./Properties/C20.vok ./Properties/C20.required_vos: ./Properties/C20.v ./Model/Resource.vos ./Proofs/C20Proofs.vos
-./Spec/C04.vo ./Spec/C04.glob ./Spec/C04.v.beautified ./Spec/C04.required_vo: ./Spec/C04.v 
-./Spec/C04.vio: ./Spec/C04.v 
-./Spec/C04.vos ./Spec/C04.vok ./Spec/C04.required_vos: ./Spec/C04.v 
-./Spec/C04Judge.vo ./Spec/C04Judge.glob ./Spec/C04Judge.v.beautified ./Spec/C04Judge.required_vo: ./Spec/C04Judge.v ./Spec/C04.vo
-./Spec/C04Judge.vio: ./Spec/C04Judge.v ./Spec/C04.vio
-./Spec/C04Judge.vos ./Spec/C04Judge.vok ./Spec/C04Judge.required_vos: ./Spec/C04Judge.v ./Spec/C04.vos
-./Spec/C06.vo ./Spec/C06.glob ./Spec/C06.v.beautified ./Spec/C06.required_vo: ./Spec/C06.v 
-./Spec/C06.vio: ./Spec/C06.v 
-./Spec/C06.vos ./Spec/C06.vok ./Spec/C06.required_vos: ./Spec/C06.v 
-./Spec/C06Judge.vo ./Spec/C06Judge.glob ./Spec/C06Judge.v.beautified ./Spec/C06Judge.required_vo: ./Spec/C06Judge.v 
-./Spec/C06Judge.vio: ./Spec/C06Judge.v 
-./Spec/C06Judge.vos ./Spec/C06Judge.vok ./Spec/C06Judge.required_vos: ./Spec/C06Judge.v 
-./Spec/C07Judge.vo ./Spec/C07Judge.glob ./Spec/C07Judge.v.beautified ./Spec/C07Judge.required_vo: ./Spec/C07Judge.v ./Model/Io.vo ./Model/Cycle.vo
-./Spec/C07Judge.vio: ./Spec/C07Judge.v ./Model/Io.vio ./Model/Cycle.vio
-./Spec/C07Judge.vos ./Spec/C07Judge.vok ./Spec/C07Judge.required_vos: ./Spec/C07Judge.v ./Model/Io.vos ./Model/Cycle.vos
-./Spec/C09Judge.vo ./Spec/C09Judge.glob ./Spec/C09Judge.v.beautified ./Spec/C09Judge.required_vo: ./Spec/C09Judge.v ./Model/Restart.vo
-./Spec/C09Judge.vio: ./Spec/C09Judge.v ./Model/Restart.vio
-./Spec/C09Judge.vos ./Spec/C09Judge.vok ./Spec/C09Judge.required_vos: ./Spec/C09Judge.v ./Model/Restart.vos
-./Spec/C11Judge.vo ./Spec/C11Judge.glob ./Spec/C11Judge.v.beautified ./Spec/C11Judge.required_vo: ./Spec/C11Judge.v ./Model/Stbc.vo ./Model/StbcEnc.vo
-./Spec/C11Judge.vio: ./Spec/C11Judge.v ./Model/Stbc.vio ./Model/StbcEnc.vio
-./Spec/C11Judge.vos ./Spec/C11Judge.vok ./Spec/C11Judge.required_vos: ./Spec/C11Judge.v ./Model/Stbc.vos ./Model/StbcEnc.vos
-./Spec/C12Judge.vo ./Spec/C12Judge.glob ./Spec/C12Judge.v.beautified ./Spec/C12Judge.required_vo: ./Spec/C12Judge.v ./Model/LexSink.vo
-./Spec/C12Judge.vio: ./Spec/C12Judge.v ./Model/LexSink.vio
-./Spec/C12Judge.vos ./Spec/C12Judge.vok ./Spec/C12Judge.required_vos: ./Spec/C12Judge.v ./Model/LexSink.vos
-./Spec/C14.vo ./Spec/C14.glob ./Spec/C14.v.beautified ./Spec/C14.required_vo: ./Spec/C14.v ./Model/LspText.vo
-./Spec/C14.vio: ./Spec/C14.v ./Model/LspText.vio
-./Spec/C14.vos ./Spec/C14.vok ./Spec/C14.required_vos: ./Spec/C14.v ./Model/LspText.vos
-./Spec/C15Judge.vo ./Spec/C15Judge.glob ./Spec/C15Judge.v.beautified ./Spec/C15Judge.required_vo: ./Spec/C15Judge.v ./Model/FmtIndent.vo ./gen/C15Kinds.vo
-./Spec/C15Judge.vio: ./Spec/C15Judge.v ./Model/FmtIndent.vio ./gen/C15Kinds.vio
-./Spec/C15Judge.vos ./Spec/C15Judge.vok ./Spec/C15Judge.required_vos: ./Spec/C15Judge.v ./Model/FmtIndent.vos ./gen/C15Kinds.vos
-./Spec/C17Judge.vo ./Spec/C17Judge.glob ./Spec/C17Judge.v.beautified ./Spec/C17Judge.required_vo: ./Spec/C17Judge.v ./Model/Debug.vo
-./Spec/C17Judge.vio: ./Spec/C17Judge.v ./Model/Debug.vio
-./Spec/C17Judge.vos ./Spec/C17Judge.vok ./Spec/C17Judge.required_vos: ./Spec/C17Judge.v ./Model/Debug.vos
-./Spec/C18.vo ./Spec/C18.glob ./Spec/C18.v.beautified ./Spec/C18.required_vo: ./Spec/C18.v 
-./Spec/C18.vio: ./Spec/C18.v 
-./Spec/C18.vos ./Spec/C18.vok ./Spec/C18.required_vos: ./Spec/C18.v 
-./Spec/C18Judge.vo ./Spec/C18Judge.glob ./Spec/C18Judge.v.beautified ./Spec/C18Judge.required_vo: ./Spec/C18Judge.v ./Spec/C18.vo
-./Spec/C18Judge.vio: ./Spec/C18Judge.v ./Spec/C18.vio
-./Spec/C18Judge.vos ./Spec/C18Judge.vok ./Spec/C18Judge.required_vos: ./Spec/C18Judge.v ./Spec/C18.vos
-./Spec/C19Judge.vo ./Spec/C19Judge.glob ./Spec/C19Judge.v.beautified ./Spec/C19Judge.required_vo: ./Spec/C19Judge.v ./Model/WebIde.vo
-./Spec/C19Judge.vio: ./Spec/C19Judge.v ./Model/WebIde.vio
-./Spec/C19Judge.vos ./Spec/C19Judge.vok ./Spec/C19Judge.required_vos: ./Spec/C19Judge.v ./Model/WebIde.vos
-./Spec/C20Judge.vo ./Spec/C20Judge.glob ./Spec/C20Judge.v.beautified ./Spec/C20Judge.required_vo: ./Spec/C20Judge.v ./Model/Resource.vo
-./Spec/C20Judge.vio: ./Spec/C20Judge.v ./Model/Resource.vio
-./Spec/C20Judge.vos ./Spec/C20Judge.vok ./Spec/C20Judge.required_vos: ./Spec/C20Judge.v ./Model/Resource.vos
-./gen/C05Sites.vo ./gen/C05Sites.glob ./gen/C05Sites.v.beautified ./gen/C05Sites.required_vo: ./gen/C05Sites.v 
-./gen/C05Sites.vio: ./gen/C05Sites.v 
-./gen/C05Sites.vos ./gen/C05Sites.vok ./gen/C05Sites.required_vos: ./gen/C05Sites.v 
-./gen/C15Kinds.vo ./gen/C15Kinds.glob ./gen/C15Kinds.v.beautified ./gen/C15Kinds.required_vo: ./gen/C15Kinds.v 
-./gen/C15Kinds.vio: ./gen/C15Kinds.v 
-./gen/C15Kinds.vos ./gen/C15Kinds.vok ./gen/C15Kinds.required_vos: ./gen/C15Kinds.v 
-./gen/C18Tables.vo ./gen/C18Tables.glob ./gen/C18Tables.v.beautified ./gen/C18Tables.required_vo: ./gen/C18Tables.v 
-./gen/C18Tables.vio: ./gen/C18Tables.v 
-./gen/C18Tables.vos ./gen/C18Tables.vok ./gen/C18Tables.required_vos: ./gen/C18Tables.v 
+Extract/C01x.vo Extract/C01x.glob Extract/C01x.v.beautified Extract/C01x.required_vo: Extract/C01x.v Model/StCore.vo Model/StTyping.vo Model/StRef.vo Model/StCalls.vo
+Extract/C01x.vio: Extract/C01x.v Model/StCore.vio Model/StTyping.vio Model/StRef.vio Model/StCalls.vio
+Extract/C01x.vos Extract/C01x.vok Extract/C01x.required_vos: Extract/C01x.v Model/StCore.vos Model/StTyping.vos Model/StRef.vos Model/StCalls.vos
+Extract/C04x.vo Extract/C04x.glob Extract/C04x.v.beautified Extract/C04x.required_vo: Extract/C04x.v Model/Fb.vo Spec/C04.vo Spec/C04Judge.vo
+Extract/C04x.vio: Extract/C04x.v Model/Fb.vio Spec/C04.vio Spec/C04Judge.vio
+Extract/C04x.vos Extract/C04x.vok Extract/C04x.required_vos: Extract/C04x.v Model/Fb.vos Spec/C04.vos Spec/C04Judge.vos
+Extract/C06x.vo Extract/C06x.glob Extract/C06x.v.beautified Extract/C06x.required_vo: Extract/C06x.v Model/Sched.vo Spec/C06Judge.vo
+Extract/C06x.vio: Extract/C06x.v Model/Sched.vio Spec/C06Judge.vio
+Extract/C06x.vos Extract/C06x.vok Extract/C06x.required_vos: Extract/C06x.v Model/Sched.vos Spec/C06Judge.vos
+Extract/C07x.vo Extract/C07x.glob Extract/C07x.v.beautified Extract/C07x.required_vo: Extract/C07x.v Model/Io.vo Model/Cycle.vo Spec/C07Judge.vo
+Extract/C07x.vio: Extract/C07x.v Model/Io.vio Model/Cycle.vio Spec/C07Judge.vio
+Extract/C07x.vos Extract/C07x.vok Extract/C07x.required_vos: Extract/C07x.v Model/Io.vos Model/Cycle.vos Spec/C07Judge.vos
+Extract/C09x.vo Extract/C09x.glob Extract/C09x.v.beautified Extract/C09x.required_vo: Extract/C09x.v Model/Restart.vo Model/RestartTasks.vo Spec/C09Judge.vo
+Extract/C09x.vio: Extract/C09x.v Model/Restart.vio Model/RestartTasks.vio Spec/C09Judge.vio
+Extract/C09x.vos Extract/C09x.vok Extract/C09x.required_vos: Extract/C09x.v Model/Restart.vos Model/RestartTasks.vos Spec/C09Judge.vos
+Extract/C10x.vo Extract/C10x.glob Extract/C10x.v.beautified Extract/C10x.required_vo: Extract/C10x.v Model/RetainCodec.vo Model/CrashFs.vo
+Extract/C10x.vio: Extract/C10x.v Model/RetainCodec.vio Model/CrashFs.vio
+Extract/C10x.vos Extract/C10x.vok Extract/C10x.required_vos: Extract/C10x.v Model/RetainCodec.vos Model/CrashFs.vos
+Extract/C11x.vo Extract/C11x.glob Extract/C11x.v.beautified Extract/C11x.required_vo: Extract/C11x.v Model/Stbc.vo Spec/C11Judge.vo
+Extract/C11x.vio: Extract/C11x.v Model/Stbc.vio Spec/C11Judge.vio
+Extract/C11x.vos Extract/C11x.vok Extract/C11x.required_vos: Extract/C11x.v Model/Stbc.vos Spec/C11Judge.vos
+Extract/C12x.vo Extract/C12x.glob Extract/C12x.v.beautified Extract/C12x.required_vo: Extract/C12x.v Model/LexSink.vo Spec/C12Judge.vo
+Extract/C12x.vio: Extract/C12x.v Model/LexSink.vio Spec/C12Judge.vio
+Extract/C12x.vos Extract/C12x.vok Extract/C12x.required_vos: Extract/C12x.v Model/LexSink.vos Spec/C12Judge.vos
+Extract/C13x.vo Extract/C13x.glob Extract/C13x.v.beautified Extract/C13x.required_vo: Extract/C13x.v Model/HirDb.vo
+Extract/C13x.vio: Extract/C13x.v Model/HirDb.vio
+Extract/C13x.vos Extract/C13x.vok Extract/C13x.required_vos: Extract/C13x.v Model/HirDb.vos
+Extract/C14x.vo Extract/C14x.glob Extract/C14x.v.beautified Extract/C14x.required_vo: Extract/C14x.v Model/LspText.vo Spec/C14.vo
+Extract/C14x.vio: Extract/C14x.v Model/LspText.vio Spec/C14.vio
+Extract/C14x.vos Extract/C14x.vok Extract/C14x.required_vos: Extract/C14x.v Model/LspText.vos Spec/C14.vos
+Extract/C15x.vo Extract/C15x.glob Extract/C15x.v.beautified Extract/C15x.required_vo: Extract/C15x.v Model/FmtEdit.vo Spec/C15Judge.vo
+Extract/C15x.vio: Extract/C15x.v Model/FmtEdit.vio Spec/C15Judge.vio
+Extract/C15x.vos Extract/C15x.vok Extract/C15x.required_vos: Extract/C15x.v Model/FmtEdit.vos Spec/C15Judge.vos
+Extract/C16x.vo Extract/C16x.glob Extract/C16x.v.beautified Extract/C16x.required_vo: Extract/C16x.v Model/Rename.vo
+Extract/C16x.vio: Extract/C16x.v Model/Rename.vio
+Extract/C16x.vos Extract/C16x.vok Extract/C16x.required_vos: Extract/C16x.v Model/Rename.vos
+Extract/C17x.vo Extract/C17x.glob Extract/C17x.v.beautified Extract/C17x.required_vo: Extract/C17x.v Model/Debug.vo Spec/C17Judge.vo
+Extract/C17x.vio: Extract/C17x.v Model/Debug.vio Spec/C17Judge.vio
+Extract/C17x.vos Extract/C17x.vok Extract/C17x.required_vos: Extract/C17x.v Model/Debug.vos Spec/C17Judge.vos
+Extract/C18x.vo Extract/C18x.glob Extract/C18x.v.beautified Extract/C18x.required_vo: Extract/C18x.v gen/C18Tables.vo Model/Control.vo Spec/C18.vo Spec/C18Judge.vo
+Extract/C18x.vio: Extract/C18x.v gen/C18Tables.vio Model/Control.vio Spec/C18.vio Spec/C18Judge.vio
+Extract/C18x.vos Extract/C18x.vok Extract/C18x.required_vos: Extract/C18x.v gen/C18Tables.vos Model/Control.vos Spec/C18.vos Spec/C18Judge.vos
+Extract/C19x.vo Extract/C19x.glob Extract/C19x.v.beautified Extract/C19x.required_vo: Extract/C19x.v Model/WebIde.vo Model/WebIdeDocs.vo Spec/C19Judge.vo
+Extract/C19x.vio: Extract/C19x.v Model/WebIde.vio Model/WebIdeDocs.vio Spec/C19Judge.vio
+Extract/C19x.vos Extract/C19x.vok Extract/C19x.required_vos: Extract/C19x.v Model/WebIde.vos Model/WebIdeDocs.vos Spec/C19Judge.vos
+Extract/C20x.vo Extract/C20x.glob Extract/C20x.v.beautified Extract/C20x.required_vo: Extract/C20x.v Model/Resource.vo Spec/C20Judge.vo
+Extract/C20x.vio: Extract/C20x.v Model/Resource.vio Spec/C20Judge.vio
+Extract/C20x.vos Extract/C20x.vok Extract/C20x.required_vos: Extract/C20x.v Model/Resource.vos Spec/C20Judge.vos
+Model/Control.vo Model/Control.glob Model/Control.v.beautified Model/Control.required_vo: Model/Control.v gen/C18Tables.vo
+Model/Control.vio: Model/Control.v gen/C18Tables.vio
+Model/Control.vos Model/Control.vok Model/Control.required_vos: Model/Control.v gen/C18Tables.vos
+Model/CrashFs.vo Model/CrashFs.glob Model/CrashFs.v.beautified Model/CrashFs.required_vo: Model/CrashFs.v 
+Model/CrashFs.vio: Model/CrashFs.v 
+Model/CrashFs.vos Model/CrashFs.vok Model/CrashFs.required_vos: Model/CrashFs.v 
+Model/Cycle.vo Model/Cycle.glob Model/Cycle.v.beautified Model/Cycle.required_vo: Model/Cycle.v Model/Io.vo
+Model/Cycle.vio: Model/Cycle.v Model/Io.vio
+Model/Cycle.vos Model/Cycle.vok Model/Cycle.required_vos: Model/Cycle.v Model/Io.vos
+Model/Debug.vo Model/Debug.glob Model/Debug.v.beautified Model/Debug.required_vo: Model/Debug.v 
+Model/Debug.vio: Model/Debug.v 
+Model/Debug.vos Model/Debug.vok Model/Debug.required_vos: Model/Debug.v 
+Model/Fb.vo Model/Fb.glob Model/Fb.v.beautified Model/Fb.required_vo: Model/Fb.v 
+Model/Fb.vio: Model/Fb.v 
+Model/Fb.vos Model/Fb.vok Model/Fb.required_vos: Model/Fb.v 
+Model/FmtEdit.vo Model/FmtEdit.glob Model/FmtEdit.v.beautified Model/FmtEdit.required_vo: Model/FmtEdit.v 
+Model/FmtEdit.vio: Model/FmtEdit.v 
+Model/FmtEdit.vos Model/FmtEdit.vok Model/FmtEdit.required_vos: Model/FmtEdit.v 
+Model/FmtIndent.vo Model/FmtIndent.glob Model/FmtIndent.v.beautified Model/FmtIndent.required_vo: Model/FmtIndent.v 
+Model/FmtIndent.vio: Model/FmtIndent.v 
+Model/FmtIndent.vos Model/FmtIndent.vok Model/FmtIndent.required_vos: Model/FmtIndent.v 
+Model/HirDb.vo Model/HirDb.glob Model/HirDb.v.beautified Model/HirDb.required_vo: Model/HirDb.v 
+Model/HirDb.vio: Model/HirDb.v 
+Model/HirDb.vos Model/HirDb.vok Model/HirDb.required_vos: Model/HirDb.v 
+Model/Io.vo Model/Io.glob Model/Io.v.beautified Model/Io.required_vo: Model/Io.v 
+Model/Io.vio: Model/Io.v 
+Model/Io.vos Model/Io.vok Model/Io.required_vos: Model/Io.v 
+Model/LexSink.vo Model/LexSink.glob Model/LexSink.v.beautified Model/LexSink.required_vo: Model/LexSink.v 
+Model/LexSink.vio: Model/LexSink.v 
+Model/LexSink.vos Model/LexSink.vok Model/LexSink.required_vos: Model/LexSink.v 
+Model/LspText.vo Model/LspText.glob Model/LspText.v.beautified Model/LspText.required_vo: Model/LspText.v 
+Model/LspText.vio: Model/LspText.v 
+Model/LspText.vos Model/LspText.vok Model/LspText.required_vos: Model/LspText.v 
+Model/OrderOblivious.vo Model/OrderOblivious.glob Model/OrderOblivious.v.beautified Model/OrderOblivious.required_vo: Model/OrderOblivious.v 
+Model/OrderOblivious.vio: Model/OrderOblivious.v 
+Model/OrderOblivious.vos Model/OrderOblivious.vok Model/OrderOblivious.required_vos: Model/OrderOblivious.v 
+Model/Rename.vo Model/Rename.glob Model/Rename.v.beautified Model/Rename.required_vo: Model/Rename.v 
+Model/Rename.vio: Model/Rename.v 
+Model/Rename.vos Model/Rename.vok Model/Rename.required_vos: Model/Rename.v 
+Model/Resource.vo Model/Resource.glob Model/Resource.v.beautified Model/Resource.required_vo: Model/Resource.v 
+Model/Resource.vio: Model/Resource.v 
+Model/Resource.vos Model/Resource.vok Model/Resource.required_vos: Model/Resource.v 
+Model/ResourceGate.vo Model/ResourceGate.glob Model/ResourceGate.v.beautified Model/ResourceGate.required_vo: Model/ResourceGate.v 
+Model/ResourceGate.vio: Model/ResourceGate.v 
+Model/ResourceGate.vos Model/ResourceGate.vok Model/ResourceGate.required_vos: Model/ResourceGate.v 
+Model/Restart.vo Model/Restart.glob Model/Restart.v.beautified Model/Restart.required_vo: Model/Restart.v 
+Model/Restart.vio: Model/Restart.v 
+Model/Restart.vos Model/Restart.vok Model/Restart.required_vos: Model/Restart.v 
+Model/RestartTasks.vo Model/RestartTasks.glob Model/RestartTasks.v.beautified Model/RestartTasks.required_vo: Model/RestartTasks.v 
+Model/RestartTasks.vio: Model/RestartTasks.v 
+Model/RestartTasks.vos Model/RestartTasks.vok Model/RestartTasks.required_vos: Model/RestartTasks.v 
+Model/RetainCodec.vo Model/RetainCodec.glob Model/RetainCodec.v.beautified Model/RetainCodec.required_vo: Model/RetainCodec.v 
+Model/RetainCodec.vio: Model/RetainCodec.v 
+Model/RetainCodec.vos Model/RetainCodec.vok Model/RetainCodec.required_vos: Model/RetainCodec.v 
+Model/Sched.vo Model/Sched.glob Model/Sched.v.beautified Model/Sched.required_vo: Model/Sched.v 
+Model/Sched.vio: Model/Sched.v 
+Model/Sched.vos Model/Sched.vok Model/Sched.required_vos: Model/Sched.v 
+Model/StCalls.vo Model/StCalls.glob Model/StCalls.v.beautified Model/StCalls.required_vo: Model/StCalls.v Model/StCore.vo
+Model/StCalls.vio: Model/StCalls.v Model/StCore.vio
+Model/StCalls.vos Model/StCalls.vok Model/StCalls.required_vos: Model/StCalls.v Model/StCore.vos
+Model/StCore.vo Model/StCore.glob Model/StCore.v.beautified Model/StCore.required_vo: Model/StCore.v 
+Model/StCore.vio: Model/StCore.v 
+Model/StCore.vos Model/StCore.vok Model/StCore.required_vos: Model/StCore.v 
+Model/StRef.vo Model/StRef.glob Model/StRef.v.beautified Model/StRef.required_vo: Model/StRef.v Model/StCore.vo Model/StTyping.vo
+Model/StRef.vio: Model/StRef.v Model/StCore.vio Model/StTyping.vio
+Model/StRef.vos Model/StRef.vok Model/StRef.required_vos: Model/StRef.v Model/StCore.vos Model/StTyping.vos
+Model/StTyping.vo Model/StTyping.glob Model/StTyping.v.beautified Model/StTyping.required_vo: Model/StTyping.v Model/StCore.vo
+Model/StTyping.vio: Model/StTyping.v Model/StCore.vio
+Model/StTyping.vos Model/StTyping.vok Model/StTyping.required_vos: Model/StTyping.v Model/StCore.vos
+Model/Stbc.vo Model/Stbc.glob Model/Stbc.v.beautified Model/Stbc.required_vo: Model/Stbc.v 
+Model/Stbc.vio: Model/Stbc.v 
+Model/Stbc.vos Model/Stbc.vok Model/Stbc.required_vos: Model/Stbc.v 
+Model/StbcEnc.vo Model/StbcEnc.glob Model/StbcEnc.v.beautified Model/StbcEnc.required_vo: Model/StbcEnc.v Model/Stbc.vo
+Model/StbcEnc.vio: Model/StbcEnc.v Model/Stbc.vio
+Model/StbcEnc.vos Model/StbcEnc.vok Model/StbcEnc.required_vos: Model/StbcEnc.v Model/Stbc.vos
+Model/WebIde.vo Model/WebIde.glob Model/WebIde.v.beautified Model/WebIde.required_vo: Model/WebIde.v 
+Model/WebIde.vio: Model/WebIde.v 
+Model/WebIde.vos Model/WebIde.vok Model/WebIde.required_vos: Model/WebIde.v 
+Model/WebIdeDocs.vo Model/WebIdeDocs.glob Model/WebIdeDocs.v.beautified Model/WebIdeDocs.required_vo: Model/WebIdeDocs.v Model/WebIde.vo
+Model/WebIdeDocs.vio: Model/WebIdeDocs.v Model/WebIde.vio
+Model/WebIdeDocs.vos Model/WebIdeDocs.vok Model/WebIdeDocs.required_vos: Model/WebIdeDocs.v Model/WebIde.vos
+Proofs/C02Proofs.vo Proofs/C02Proofs.glob Proofs/C02Proofs.v.beautified Proofs/C02Proofs.required_vo: Proofs/C02Proofs.v Model/StCore.vo Model/StTyping.vo Model/StRef.vo
+Proofs/C02Proofs.vio: Proofs/C02Proofs.v Model/StCore.vio Model/StTyping.vio Model/StRef.vio
+Proofs/C02Proofs.vos Proofs/C02Proofs.vok Proofs/C02Proofs.required_vos: Proofs/C02Proofs.v Model/StCore.vos Model/StTyping.vos Model/StRef.vos
+Proofs/C02Refine.vo Proofs/C02Refine.glob Proofs/C02Refine.v.beautified Proofs/C02Refine.required_vo: Proofs/C02Refine.v Model/StCore.vo Model/StTyping.vo Model/StRef.vo Proofs/StProofs.vo
+Proofs/C02Refine.vio: Proofs/C02Refine.v Model/StCore.vio Model/StTyping.vio Model/StRef.vio Proofs/StProofs.vio
+Proofs/C02Refine.vos Proofs/C02Refine.vok Proofs/C02Refine.required_vos: Proofs/C02Refine.v Model/StCore.vos Model/StTyping.vos Model/StRef.vos Proofs/StProofs.vos
+Proofs/C04Proofs.vo Proofs/C04Proofs.glob Proofs/C04Proofs.v.beautified Proofs/C04Proofs.required_vo: Proofs/C04Proofs.v Model/Fb.vo Spec/C04.vo
+Proofs/C04Proofs.vio: Proofs/C04Proofs.v Model/Fb.vio Spec/C04.vio
+Proofs/C04Proofs.vos Proofs/C04Proofs.vok Proofs/C04Proofs.required_vos: Proofs/C04Proofs.v Model/Fb.vos Spec/C04.vos
+Proofs/C05Proofs.vo Proofs/C05Proofs.glob Proofs/C05Proofs.v.beautified Proofs/C05Proofs.required_vo: Proofs/C05Proofs.v Model/OrderOblivious.vo gen/C05Sites.vo
+Proofs/C05Proofs.vio: Proofs/C05Proofs.v Model/OrderOblivious.vio gen/C05Sites.vio
+Proofs/C05Proofs.vos Proofs/C05Proofs.vok Proofs/C05Proofs.required_vos: Proofs/C05Proofs.v Model/OrderOblivious.vos gen/C05Sites.vos
+Proofs/C06Proofs.vo Proofs/C06Proofs.glob Proofs/C06Proofs.v.beautified Proofs/C06Proofs.required_vo: Proofs/C06Proofs.v Model/Sched.vo Spec/C06.vo
+Proofs/C06Proofs.vio: Proofs/C06Proofs.v Model/Sched.vio Spec/C06.vio
+Proofs/C06Proofs.vos Proofs/C06Proofs.vok Proofs/C06Proofs.required_vos: Proofs/C06Proofs.v Model/Sched.vos Spec/C06.vos
+Proofs/C09Proofs.vo Proofs/C09Proofs.glob Proofs/C09Proofs.v.beautified Proofs/C09Proofs.required_vo: Proofs/C09Proofs.v Model/Restart.vo Model/RestartTasks.vo
+Proofs/C09Proofs.vio: Proofs/C09Proofs.v Model/Restart.vio Model/RestartTasks.vio
+Proofs/C09Proofs.vos Proofs/C09Proofs.vok Proofs/C09Proofs.required_vos: Proofs/C09Proofs.v Model/Restart.vos Model/RestartTasks.vos
+Proofs/C10Proofs.vo Proofs/C10Proofs.glob Proofs/C10Proofs.v.beautified Proofs/C10Proofs.required_vo: Proofs/C10Proofs.v Model/RetainCodec.vo Model/CrashFs.vo
+Proofs/C10Proofs.vio: Proofs/C10Proofs.v Model/RetainCodec.vio Model/CrashFs.vio
+Proofs/C10Proofs.vos Proofs/C10Proofs.vok Proofs/C10Proofs.required_vos: Proofs/C10Proofs.v Model/RetainCodec.vos Model/CrashFs.vos
+Proofs/C11Frame.vo Proofs/C11Frame.glob Proofs/C11Frame.v.beautified Proofs/C11Frame.required_vo: Proofs/C11Frame.v Model/Stbc.vo Model/StbcEnc.vo Proofs/C11Proofs.vo
+Proofs/C11Frame.vio: Proofs/C11Frame.v Model/Stbc.vio Model/StbcEnc.vio Proofs/C11Proofs.vio
+Proofs/C11Frame.vos Proofs/C11Frame.vok Proofs/C11Frame.required_vos: Proofs/C11Frame.v Model/Stbc.vos Model/StbcEnc.vos Proofs/C11Proofs.vos
+Proofs/C11Proofs.vo Proofs/C11Proofs.glob Proofs/C11Proofs.v.beautified Proofs/C11Proofs.required_vo: Proofs/C11Proofs.v Model/Stbc.vo
+Proofs/C11Proofs.vio: Proofs/C11Proofs.v Model/Stbc.vio
+Proofs/C11Proofs.vos Proofs/C11Proofs.vok Proofs/C11Proofs.required_vos: Proofs/C11Proofs.v Model/Stbc.vos
+Proofs/C12Proofs.vo Proofs/C12Proofs.glob Proofs/C12Proofs.v.beautified Proofs/C12Proofs.required_vo: Proofs/C12Proofs.v Model/LexSink.vo
+Proofs/C12Proofs.vio: Proofs/C12Proofs.v Model/LexSink.vio
+Proofs/C12Proofs.vos Proofs/C12Proofs.vok Proofs/C12Proofs.required_vos: Proofs/C12Proofs.v Model/LexSink.vos
+Proofs/C13Proofs.vo Proofs/C13Proofs.glob Proofs/C13Proofs.v.beautified Proofs/C13Proofs.required_vo: Proofs/C13Proofs.v Model/HirDb.vo
+Proofs/C13Proofs.vio: Proofs/C13Proofs.v Model/HirDb.vio
+Proofs/C13Proofs.vos Proofs/C13Proofs.vok Proofs/C13Proofs.required_vos: Proofs/C13Proofs.v Model/HirDb.vos
+Proofs/C14Proofs.vo Proofs/C14Proofs.glob Proofs/C14Proofs.v.beautified Proofs/C14Proofs.required_vo: Proofs/C14Proofs.v Model/LspText.vo Spec/C14.vo
+Proofs/C14Proofs.vio: Proofs/C14Proofs.v Model/LspText.vio Spec/C14.vio
+Proofs/C14Proofs.vos Proofs/C14Proofs.vok Proofs/C14Proofs.required_vos: Proofs/C14Proofs.v Model/LspText.vos Spec/C14.vos
+Proofs/C15Indent.vo Proofs/C15Indent.glob Proofs/C15Indent.v.beautified Proofs/C15Indent.required_vo: Proofs/C15Indent.v Model/FmtIndent.vo gen/C15Kinds.vo Spec/C15Judge.vo
+Proofs/C15Indent.vio: Proofs/C15Indent.v Model/FmtIndent.vio gen/C15Kinds.vio Spec/C15Judge.vio
+Proofs/C15Indent.vos Proofs/C15Indent.vok Proofs/C15Indent.required_vos: Proofs/C15Indent.v Model/FmtIndent.vos gen/C15Kinds.vos Spec/C15Judge.vos
+Proofs/C15Proofs.vo Proofs/C15Proofs.glob Proofs/C15Proofs.v.beautified Proofs/C15Proofs.required_vo: Proofs/C15Proofs.v Model/FmtEdit.vo
+Proofs/C15Proofs.vio: Proofs/C15Proofs.v Model/FmtEdit.vio
+Proofs/C15Proofs.vos Proofs/C15Proofs.vok Proofs/C15Proofs.required_vos: Proofs/C15Proofs.v Model/FmtEdit.vos
+Proofs/C16Proofs.vo Proofs/C16Proofs.glob Proofs/C16Proofs.v.beautified Proofs/C16Proofs.required_vo: Proofs/C16Proofs.v Model/Rename.vo
+Proofs/C16Proofs.vio: Proofs/C16Proofs.v Model/Rename.vio
+Proofs/C16Proofs.vos Proofs/C16Proofs.vok Proofs/C16Proofs.required_vos: Proofs/C16Proofs.v Model/Rename.vos
+Proofs/C17Inv.vo Proofs/C17Inv.glob Proofs/C17Inv.v.beautified Proofs/C17Inv.required_vo: Proofs/C17Inv.v Model/Debug.vo
+Proofs/C17Inv.vio: Proofs/C17Inv.v Model/Debug.vio
+Proofs/C17Inv.vos Proofs/C17Inv.vok Proofs/C17Inv.required_vos: Proofs/C17Inv.v Model/Debug.vos
+Proofs/C17Proofs.vo Proofs/C17Proofs.glob Proofs/C17Proofs.v.beautified Proofs/C17Proofs.required_vo: Proofs/C17Proofs.v Model/Debug.vo Proofs/C17Inv.vo
+Proofs/C17Proofs.vio: Proofs/C17Proofs.v Model/Debug.vio Proofs/C17Inv.vio
+Proofs/C17Proofs.vos Proofs/C17Proofs.vok Proofs/C17Proofs.required_vos: Proofs/C17Proofs.v Model/Debug.vos Proofs/C17Inv.vos
+Proofs/C18Proofs.vo Proofs/C18Proofs.glob Proofs/C18Proofs.v.beautified Proofs/C18Proofs.required_vo: Proofs/C18Proofs.v gen/C18Tables.vo Model/Control.vo Spec/C18.vo
+Proofs/C18Proofs.vio: Proofs/C18Proofs.v gen/C18Tables.vio Model/Control.vio Spec/C18.vio
+Proofs/C18Proofs.vos Proofs/C18Proofs.vok Proofs/C18Proofs.required_vos: Proofs/C18Proofs.v gen/C18Tables.vos Model/Control.vos Spec/C18.vos
+Proofs/C19Proofs.vo Proofs/C19Proofs.glob Proofs/C19Proofs.v.beautified Proofs/C19Proofs.required_vo: Proofs/C19Proofs.v Model/WebIde.vo Model/WebIdeDocs.vo
+Proofs/C19Proofs.vio: Proofs/C19Proofs.v Model/WebIde.vio Model/WebIdeDocs.vio
+Proofs/C19Proofs.vos Proofs/C19Proofs.vok Proofs/C19Proofs.required_vos: Proofs/C19Proofs.v Model/WebIde.vos Model/WebIdeDocs.vos
+Proofs/C20Gate.vo Proofs/C20Gate.glob Proofs/C20Gate.v.beautified Proofs/C20Gate.required_vo: Proofs/C20Gate.v Model/ResourceGate.vo
+Proofs/C20Gate.vio: Proofs/C20Gate.v Model/ResourceGate.vio
+Proofs/C20Gate.vos Proofs/C20Gate.vok Proofs/C20Gate.required_vos: Proofs/C20Gate.v Model/ResourceGate.vos
+Proofs/C20Proofs.vo Proofs/C20Proofs.glob Proofs/C20Proofs.v.beautified Proofs/C20Proofs.required_vo: Proofs/C20Proofs.v Model/Resource.vo
+Proofs/C20Proofs.vio: Proofs/C20Proofs.v Model/Resource.vio
+Proofs/C20Proofs.vos Proofs/C20Proofs.vok Proofs/C20Proofs.required_vos: Proofs/C20Proofs.v Model/Resource.vos
+Proofs/CycleProofs.vo Proofs/CycleProofs.glob Proofs/CycleProofs.v.beautified Proofs/CycleProofs.required_vo: Proofs/CycleProofs.v Model/Io.vo Model/Cycle.vo Proofs/IoProofs.vo
+Proofs/CycleProofs.vio: Proofs/CycleProofs.v Model/Io.vio Model/Cycle.vio Proofs/IoProofs.vio
+Proofs/CycleProofs.vos Proofs/CycleProofs.vok Proofs/CycleProofs.required_vos: Proofs/CycleProofs.v Model/Io.vos Model/Cycle.vos Proofs/IoProofs.vos
+Proofs/IoProofs.vo Proofs/IoProofs.glob Proofs/IoProofs.v.beautified Proofs/IoProofs.required_vo: Proofs/IoProofs.v Model/Io.vo
+Proofs/IoProofs.vio: Proofs/IoProofs.v Model/Io.vio
+Proofs/IoProofs.vos Proofs/IoProofs.vok Proofs/IoProofs.required_vos: Proofs/IoProofs.v Model/Io.vos
+Proofs/StArrays.vo Proofs/StArrays.glob Proofs/StArrays.v.beautified Proofs/StArrays.required_vo: Proofs/StArrays.v Model/StCore.vo Model/StTyping.vo Model/StRef.vo Proofs/StProofs.vo Proofs/StCallsProofs.vo Proofs/C02Refine.vo
+Proofs/StArrays.vio: Proofs/StArrays.v Model/StCore.vio Model/StTyping.vio Model/StRef.vio Proofs/StProofs.vio Proofs/StCallsProofs.vio Proofs/C02Refine.vio
+Proofs/StArrays.vos Proofs/StArrays.vok Proofs/StArrays.required_vos: Proofs/StArrays.v Model/StCore.vos Model/StTyping.vos Model/StRef.vos Proofs/StProofs.vos Proofs/StCallsProofs.vos Proofs/C02Refine.vos
+Proofs/StCallsProofs.vo Proofs/StCallsProofs.glob Proofs/StCallsProofs.v.beautified Proofs/StCallsProofs.required_vo: Proofs/StCallsProofs.v Model/StCore.vo Model/StCalls.vo
+Proofs/StCallsProofs.vio: Proofs/StCallsProofs.v Model/StCore.vio Model/StCalls.vio
+Proofs/StCallsProofs.vos Proofs/StCallsProofs.vok Proofs/StCallsProofs.required_vos: Proofs/StCallsProofs.v Model/StCore.vos Model/StCalls.vos
+Proofs/StCallsTyping.vo Proofs/StCallsTyping.glob Proofs/StCallsTyping.v.beautified Proofs/StCallsTyping.required_vo: Proofs/StCallsTyping.v Model/StCore.vo Model/StTyping.vo Model/StCalls.vo Proofs/StProofs.vo Proofs/StCallsProofs.vo
+Proofs/StCallsTyping.vio: Proofs/StCallsTyping.v Model/StCore.vio Model/StTyping.vio Model/StCalls.vio Proofs/StProofs.vio Proofs/StCallsProofs.vio
+Proofs/StCallsTyping.vos Proofs/StCallsTyping.vok Proofs/StCallsTyping.required_vos: Proofs/StCallsTyping.v Model/StCore.vos Model/StTyping.vos Model/StCalls.vos Proofs/StProofs.vos Proofs/StCallsProofs.vos
+Proofs/StProofs.vo Proofs/StProofs.glob Proofs/StProofs.v.beautified Proofs/StProofs.required_vo: Proofs/StProofs.v Model/StCore.vo Model/StTyping.vo
+Proofs/StProofs.vio: Proofs/StProofs.v Model/StCore.vio Model/StTyping.vio
+Proofs/StProofs.vos Proofs/StProofs.vok Proofs/StProofs.required_vos: Proofs/StProofs.v Model/StCore.vos Model/StTyping.vos
+Properties/C01.vo Properties/C01.glob Properties/C01.v.beautified Properties/C01.required_vo: Properties/C01.v Model/StCore.vo Model/StTyping.vo Proofs/StProofs.vo Model/StCalls.vo Proofs/StCallsProofs.vo Proofs/StCallsTyping.vo Proofs/StArrays.vo
+Properties/C01.vio: Properties/C01.v Model/StCore.vio Model/StTyping.vio Proofs/StProofs.vio Model/StCalls.vio Proofs/StCallsProofs.vio Proofs/StCallsTyping.vio Proofs/StArrays.vio
+Properties/C01.vos Properties/C01.vok Properties/C01.required_vos: Properties/C01.v Model/StCore.vos Model/StTyping.vos Proofs/StProofs.vos Model/StCalls.vos Proofs/StCallsProofs.vos Proofs/StCallsTyping.vos Proofs/StArrays.vos
+Properties/C02.vo Properties/C02.glob Properties/C02.v.beautified Properties/C02.required_vo: Properties/C02.v Model/StCore.vo Model/StTyping.vo Model/StRef.vo Proofs/StProofs.vo Proofs/C02Proofs.vo Proofs/C02Refine.vo Proofs/StArrays.vo
+Properties/C02.vio: Properties/C02.v Model/StCore.vio Model/StTyping.vio Model/StRef.vio Proofs/StProofs.vio Proofs/C02Proofs.vio Proofs/C02Refine.vio Proofs/StArrays.vio
+Properties/C02.vos Properties/C02.vok Properties/C02.required_vos: Properties/C02.v Model/StCore.vos Model/StTyping.vos Model/StRef.vos Proofs/StProofs.vos Proofs/C02Proofs.vos Proofs/C02Refine.vos Proofs/StArrays.vos
+Properties/C03.vo Properties/C03.glob Properties/C03.v.beautified Properties/C03.required_vo: Properties/C03.v Model/StCore.vo Model/StTyping.vo Proofs/StProofs.vo Proofs/StArrays.vo
+Properties/C03.vio: Properties/C03.v Model/StCore.vio Model/StTyping.vio Proofs/StProofs.vio Proofs/StArrays.vio
+Properties/C03.vos Properties/C03.vok Properties/C03.required_vos: Properties/C03.v Model/StCore.vos Model/StTyping.vos Proofs/StProofs.vos Proofs/StArrays.vos
+Properties/C04.vo Properties/C04.glob Properties/C04.v.beautified Properties/C04.required_vo: Properties/C04.v Model/Fb.vo Spec/C04.vo Proofs/C04Proofs.vo
+Properties/C04.vio: Properties/C04.v Model/Fb.vio Spec/C04.vio Proofs/C04Proofs.vio
+Properties/C04.vos Properties/C04.vok Properties/C04.required_vos: Properties/C04.v Model/Fb.vos Spec/C04.vos Proofs/C04Proofs.vos
+Properties/C05.vo Properties/C05.glob Properties/C05.v.beautified Properties/C05.required_vo: Properties/C05.v Model/OrderOblivious.vo gen/C05Sites.vo Proofs/C05Proofs.vo
+Properties/C05.vio: Properties/C05.v Model/OrderOblivious.vio gen/C05Sites.vio Proofs/C05Proofs.vio
+Properties/C05.vos Properties/C05.vok Properties/C05.required_vos: Properties/C05.v Model/OrderOblivious.vos gen/C05Sites.vos Proofs/C05Proofs.vos
+Properties/C06.vo Properties/C06.glob Properties/C06.v.beautified Properties/C06.required_vo: Properties/C06.v Model/Sched.vo Spec/C06.vo Proofs/C06Proofs.vo
+Properties/C06.vio: Properties/C06.v Model/Sched.vio Spec/C06.vio Proofs/C06Proofs.vio
+Properties/C06.vos Properties/C06.vok Properties/C06.required_vos: Properties/C06.v Model/Sched.vos Spec/C06.vos Proofs/C06Proofs.vos
+Properties/C07.vo Properties/C07.glob Properties/C07.v.beautified Properties/C07.required_vo: Properties/C07.v Model/Io.vo Model/Cycle.vo Proofs/IoProofs.vo Proofs/CycleProofs.vo
+Properties/C07.vio: Properties/C07.v Model/Io.vio Model/Cycle.vio Proofs/IoProofs.vio Proofs/CycleProofs.vio
+Properties/C07.vos Properties/C07.vok Properties/C07.required_vos: Properties/C07.v Model/Io.vos Model/Cycle.vos Proofs/IoProofs.vos Proofs/CycleProofs.vos
+Properties/C08.vo Properties/C08.glob Properties/C08.v.beautified Properties/C08.required_vo: Properties/C08.v Model/Io.vo Model/Cycle.vo Proofs/IoProofs.vo Proofs/CycleProofs.vo
+Properties/C08.vio: Properties/C08.v Model/Io.vio Model/Cycle.vio Proofs/IoProofs.vio Proofs/CycleProofs.vio
+Properties/C08.vos Properties/C08.vok Properties/C08.required_vos: Properties/C08.v Model/Io.vos Model/Cycle.vos Proofs/IoProofs.vos Proofs/CycleProofs.vos
+Properties/C09.vo Properties/C09.glob Properties/C09.v.beautified Properties/C09.required_vo: Properties/C09.v Model/Restart.vo Model/RestartTasks.vo Proofs/C09Proofs.vo
+Properties/C09.vio: Properties/C09.v Model/Restart.vio Model/RestartTasks.vio Proofs/C09Proofs.vio
+Properties/C09.vos Properties/C09.vok Properties/C09.required_vos: Properties/C09.v Model/Restart.vos Model/RestartTasks.vos Proofs/C09Proofs.vos
+Properties/C10.vo Properties/C10.glob Properties/C10.v.beautified Properties/C10.required_vo: Properties/C10.v Model/RetainCodec.vo Model/CrashFs.vo Proofs/C10Proofs.vo
+Properties/C10.vio: Properties/C10.v Model/RetainCodec.vio Model/CrashFs.vio Proofs/C10Proofs.vio
+Properties/C10.vos Properties/C10.vok Properties/C10.required_vos: Properties/C10.v Model/RetainCodec.vos Model/CrashFs.vos Proofs/C10Proofs.vos
+Properties/C11.vo Properties/C11.glob Properties/C11.v.beautified Properties/C11.required_vo: Properties/C11.v Model/Stbc.vo Model/StbcEnc.vo Proofs/C11Proofs.vo Proofs/C11Frame.vo
+Properties/C11.vio: Properties/C11.v Model/Stbc.vio Model/StbcEnc.vio Proofs/C11Proofs.vio Proofs/C11Frame.vio
+Properties/C11.vos Properties/C11.vok Properties/C11.required_vos: Properties/C11.v Model/Stbc.vos Model/StbcEnc.vos Proofs/C11Proofs.vos Proofs/C11Frame.vos
+Properties/C12.vo Properties/C12.glob Properties/C12.v.beautified Properties/C12.required_vo: Properties/C12.v Model/LexSink.vo Proofs/C12Proofs.vo
+Properties/C12.vio: Properties/C12.v Model/LexSink.vio Proofs/C12Proofs.vio
+Properties/C12.vos Properties/C12.vok Properties/C12.required_vos: Properties/C12.v Model/LexSink.vos Proofs/C12Proofs.vos
+Properties/C13.vo Properties/C13.glob Properties/C13.v.beautified Properties/C13.required_vo: Properties/C13.v Model/HirDb.vo Proofs/C13Proofs.vo
+Properties/C13.vio: Properties/C13.v Model/HirDb.vio Proofs/C13Proofs.vio
+Properties/C13.vos Properties/C13.vok Properties/C13.required_vos: Properties/C13.v Model/HirDb.vos Proofs/C13Proofs.vos
+Properties/C14.vo Properties/C14.glob Properties/C14.v.beautified Properties/C14.required_vo: Properties/C14.v Model/LspText.vo Spec/C14.vo Proofs/C14Proofs.vo
+Properties/C14.vio: Properties/C14.v Model/LspText.vio Spec/C14.vio Proofs/C14Proofs.vio
+Properties/C14.vos Properties/C14.vok Properties/C14.required_vos: Properties/C14.v Model/LspText.vos Spec/C14.vos Proofs/C14Proofs.vos
+Properties/C15.vo Properties/C15.glob Properties/C15.v.beautified Properties/C15.required_vo: Properties/C15.v Model/FmtEdit.vo Proofs/C15Proofs.vo Model/FmtIndent.vo gen/C15Kinds.vo Spec/C15Judge.vo Proofs/C15Indent.vo
+Properties/C15.vio: Properties/C15.v Model/FmtEdit.vio Proofs/C15Proofs.vio Model/FmtIndent.vio gen/C15Kinds.vio Spec/C15Judge.vio Proofs/C15Indent.vio
+Properties/C15.vos Properties/C15.vok Properties/C15.required_vos: Properties/C15.v Model/FmtEdit.vos Proofs/C15Proofs.vos Model/FmtIndent.vos gen/C15Kinds.vos Spec/C15Judge.vos Proofs/C15Indent.vos
+Properties/C16.vo Properties/C16.glob Properties/C16.v.beautified Properties/C16.required_vo: Properties/C16.v Model/Rename.vo Proofs/C16Proofs.vo
+Properties/C16.vio: Properties/C16.v Model/Rename.vio Proofs/C16Proofs.vio
+Properties/C16.vos Properties/C16.vok Properties/C16.required_vos: Properties/C16.v Model/Rename.vos Proofs/C16Proofs.vos
+Properties/C17.vo Properties/C17.glob Properties/C17.v.beautified Properties/C17.required_vo: Properties/C17.v Model/Debug.vo Proofs/C17Inv.vo Proofs/C17Proofs.vo
+Properties/C17.vio: Properties/C17.v Model/Debug.vio Proofs/C17Inv.vio Proofs/C17Proofs.vio
+Properties/C17.vos Properties/C17.vok Properties/C17.required_vos: Properties/C17.v Model/Debug.vos Proofs/C17Inv.vos Proofs/C17Proofs.vos
+Properties/C18.vo Properties/C18.glob Properties/C18.v.beautified Properties/C18.required_vo: Properties/C18.v gen/C18Tables.vo Model/Control.vo Spec/C18.vo Proofs/C18Proofs.vo
+Properties/C18.vio: Properties/C18.v gen/C18Tables.vio Model/Control.vio Spec/C18.vio Proofs/C18Proofs.vio
+Properties/C18.vos Properties/C18.vok Properties/C18.required_vos: Properties/C18.v gen/C18Tables.vos Model/Control.vos Spec/C18.vos Proofs/C18Proofs.vos
+Properties/C19.vo Properties/C19.glob Properties/C19.v.beautified Properties/C19.required_vo: Properties/C19.v Model/WebIde.vo Model/WebIdeDocs.vo Proofs/C19Proofs.vo
+Properties/C19.vio: Properties/C19.v Model/WebIde.vio Model/WebIdeDocs.vio Proofs/C19Proofs.vio
+Properties/C19.vos Properties/C19.vok Properties/C19.required_vos: Properties/C19.v Model/WebIde.vos Model/WebIdeDocs.vos Proofs/C19Proofs.vos
+Properties/C20.vo Properties/C20.glob Properties/C20.v.beautified Properties/C20.required_vo: Properties/C20.v Model/Resource.vo Proofs/C20Proofs.vo Model/ResourceGate.vo Proofs/C20Gate.vo
+Properties/C20.vio: Properties/C20.v Model/Resource.vio Proofs/C20Proofs.vio Model/ResourceGate.vio Proofs/C20Gate.vio
+Properties/C20.vos Properties/C20.vok Properties/C20.required_vos: Properties/C20.v Model/Resource.vos Proofs/C20Proofs.vos Model/ResourceGate.vos Proofs/C20Gate.vos
+Spec/C04.vo Spec/C04.glob Spec/C04.v.beautified Spec/C04.required_vo: Spec/C04.v 
+Spec/C04.vio: Spec/C04.v 
+Spec/C04.vos Spec/C04.vok Spec/C04.required_vos: Spec/C04.v 
+Spec/C04Judge.vo Spec/C04Judge.glob Spec/C04Judge.v.beautified Spec/C04Judge.required_vo: Spec/C04Judge.v Spec/C04.vo
+Spec/C04Judge.vio: Spec/C04Judge.v Spec/C04.vio
+Spec/C04Judge.vos Spec/C04Judge.vok Spec/C04Judge.required_vos: Spec/C04Judge.v Spec/C04.vos
+Spec/C06.vo Spec/C06.glob Spec/C06.v.beautified Spec/C06.required_vo: Spec/C06.v 
+Spec/C06.vio: Spec/C06.v 
+Spec/C06.vos Spec/C06.vok Spec/C06.required_vos: Spec/C06.v 
+Spec/C06Judge.vo Spec/C06Judge.glob Spec/C06Judge.v.beautified Spec/C06Judge.required_vo: Spec/C06Judge.v 
+Spec/C06Judge.vio: Spec/C06Judge.v 
+Spec/C06Judge.vos Spec/C06Judge.vok Spec/C06Judge.required_vos: Spec/C06Judge.v 
+Spec/C07Judge.vo Spec/C07Judge.glob Spec/C07Judge.v.beautified Spec/C07Judge.required_vo: Spec/C07Judge.v Model/Io.vo Model/Cycle.vo
+Spec/C07Judge.vio: Spec/C07Judge.v Model/Io.vio Model/Cycle.vio
+Spec/C07Judge.vos Spec/C07Judge.vok Spec/C07Judge.required_vos: Spec/C07Judge.v Model/Io.vos Model/Cycle.vos
+Spec/C09Judge.vo Spec/C09Judge.glob Spec/C09Judge.v.beautified Spec/C09Judge.required_vo: Spec/C09Judge.v Model/Restart.vo
+Spec/C09Judge.vio: Spec/C09Judge.v Model/Restart.vio
+Spec/C09Judge.vos Spec/C09Judge.vok Spec/C09Judge.required_vos: Spec/C09Judge.v Model/Restart.vos
+Spec/C11Judge.vo Spec/C11Judge.glob Spec/C11Judge.v.beautified Spec/C11Judge.required_vo: Spec/C11Judge.v Model/Stbc.vo Model/StbcEnc.vo
+Spec/C11Judge.vio: Spec/C11Judge.v Model/Stbc.vio Model/StbcEnc.vio
+Spec/C11Judge.vos Spec/C11Judge.vok Spec/C11Judge.required_vos: Spec/C11Judge.v Model/Stbc.vos Model/StbcEnc.vos
+Spec/C12Judge.vo Spec/C12Judge.glob Spec/C12Judge.v.beautified Spec/C12Judge.required_vo: Spec/C12Judge.v Model/LexSink.vo
+Spec/C12Judge.vio: Spec/C12Judge.v Model/LexSink.vio
+Spec/C12Judge.vos Spec/C12Judge.vok Spec/C12Judge.required_vos: Spec/C12Judge.v Model/LexSink.vos
+Spec/C14.vo Spec/C14.glob Spec/C14.v.beautified Spec/C14.required_vo: Spec/C14.v Model/LspText.vo
+Spec/C14.vio: Spec/C14.v Model/LspText.vio
+Spec/C14.vos Spec/C14.vok Spec/C14.required_vos: Spec/C14.v Model/LspText.vos
+Spec/C15Judge.vo Spec/C15Judge.glob Spec/C15Judge.v.beautified Spec/C15Judge.required_vo: Spec/C15Judge.v Model/FmtIndent.vo gen/C15Kinds.vo
+Spec/C15Judge.vio: Spec/C15Judge.v Model/FmtIndent.vio gen/C15Kinds.vio
+Spec/C15Judge.vos Spec/C15Judge.vok Spec/C15Judge.required_vos: Spec/C15Judge.v Model/FmtIndent.vos gen/C15Kinds.vos
+Spec/C17Judge.vo Spec/C17Judge.glob Spec/C17Judge.v.beautified Spec/C17Judge.required_vo: Spec/C17Judge.v Model/Debug.vo
+Spec/C17Judge.vio: Spec/C17Judge.v Model/Debug.vio
+Spec/C17Judge.vos Spec/C17Judge.vok Spec/C17Judge.required_vos: Spec/C17Judge.v Model/Debug.vos
+Spec/C18.vo Spec/C18.glob Spec/C18.v.beautified Spec/C18.required_vo: Spec/C18.v 
+Spec/C18.vio: Spec/C18.v 
+Spec/C18.vos Spec/C18.vok Spec/C18.required_vos: Spec/C18.v 
+Spec/C18Judge.vo Spec/C18Judge.glob Spec/C18Judge.v.beautified Spec/C18Judge.required_vo: Spec/C18Judge.v Spec/C18.vo
+Spec/C18Judge.vio: Spec/C18Judge.v Spec/C18.vio
+Spec/C18Judge.vos Spec/C18Judge.vok Spec/C18Judge.required_vos: Spec/C18Judge.v Spec/C18.vos
+Spec/C19Judge.vo Spec/C19Judge.glob Spec/C19Judge.v.beautified Spec/C19Judge.required_vo: Spec/C19Judge.v Model/WebIde.vo
+Spec/C19Judge.vio: Spec/C19Judge.v Model/WebIde.vio
+Spec/C19Judge.vos Spec/C19Judge.vok Spec/C19Judge.required_vos: Spec/C19Judge.v Model/WebIde.vos
+Spec/C20Judge.vo Spec/C20Judge.glob Spec/C20Judge.v.beautified Spec/C20Judge.required_vo: Spec/C20Judge.v Model/Resource.vo
+Spec/C20Judge.vio: Spec/C20Judge.v Model/Resource.vio
+Spec/C20Judge.vos Spec/C20Judge.vok Spec/C20Judge.required_vos: Spec/C20Judge.v Model/Resource.vos
+gen/C05Sites.vo gen/C05Sites.glob gen/C05Sites.v.beautified gen/C05Sites.required_vo: gen/C05Sites.v 
+gen/C05Sites.vio: gen/C05Sites.v 
+gen/C05Sites.vos gen/C05Sites.vok gen/C05Sites.required_vos: gen/C05Sites.v 
+gen/C15Kinds.vo gen/C15Kinds.glob gen/C15Kinds.v.beautified gen/C15Kinds.required_vo: gen/C15Kinds.v 
+gen/C15Kinds.vio: gen/C15Kinds.v 
+gen/C15Kinds.vos gen/C15Kinds.vok gen/C15Kinds.required_vos: gen/C15Kinds.v 
+gen/C18Tables.vo gen/C18Tables.glob gen/C18Tables.v.beautified gen/C18Tables.required_vo: gen/C18Tables.v 
+gen/C18Tables.vio: gen/C18Tables.v 
+gen/C18Tables.vos gen/C18Tables.vok gen/C18Tables.required_vos: gen/C18Tables.v 
